@@ -13,16 +13,191 @@
 //! end; non-entitled buyer minted during an active whitelist / was charged another price than the whitelist's;
 //! public price not charged when inactive; start changed after it had passed or moved into the past; end changed
 //! after it had passed / before start; whitelist attached after start or while the old/new one is active.
+//!
+//! Round 3 (review docs/reviews/round3-C04-C07-C19.md):
+//! * GHOST bookkeeping: the harness keeps its own record of the schedule (start / end / attached whitelist / admin = what it
+//!   asked for in every ACCEPTED create / update_start / update_end / set_wl), of the member lists and Merkle leaves it put
+//!   into every whitelist, and of the prices it created things with. All gate monitors are evaluated on that record, never on
+//!   the minter's own `Config` answer; after EVERY message (also failed ones, `migrate`, governance, unknown variants) the
+//!   stored schedule is compared with the record (`*-not-stored`, `*-changed-by-other-message`).
+//! * which stage of a TIERED whitelist is in force is taken from the whitelist's own `ActiveStageId` answer (C13 owns the
+//!   interval semantics); single-stage kinds keep the property's `start <= now < end`, and the whitelist's `is_active` answer
+//!   is checked against it (`…/is_active/differs-from-start-le-now-lt-end`).
+//! * Merkle entitlement looks at the proof that was SENT: only the sibling path the harness generated for the claimed leaf
+//!   (sender's own address) in the tree in force counts.
+//! * mint funds come from the ghost record (created price / whitelist stage price), not from the `MintPrice` query.
+//! * floor cases (`floor_case`, `seq_case`, `attach_case`, `hyp_case`): deterministic boundary triples with FRESH buyers and a
+//!   supply of 400, `ses.require` of every decisive class (ok at boundary, err one ns off, per variant).
+//! * message surface enumerated at RUN TIME from `schema_for!(ExecuteMsg)` / `sg4::SudoMsg`; unknown variants are sent as raw
+//!   JSON under the monitors (`menv what=x.<variant>`); `migrate` (with a rewritten cw2 version), `MintFor`, factory `sudo
+//!   UpdateParams` are ops now.
+//! * output lines are `primary ## drift`: schedule + ok/err are primary; supply, counters and the `MintPrice` answer are drift.
 use lp_harness::minters::*;
-use lp_harness::world::{addr, addr_id, denom_id};
+use lp_harness::world::{addr, denom_id};
 use lp_harness::*;
 use serde_json::{json, Value};
-use std::collections::BTreeMap;
+use std::collections::{BTreeMap, BTreeSet};
 
 const ADMIN: u64 = 10;
 const WLADMIN: u64 = 11;
 const PAYEE: u64 = 12;
 const SRC_CREATOR: u64 = 13;
+/// a member whose address sorts after 120 filler members (beyond every pagination limit of the whitelists)
+const BIG: u64 = 3000;
+const FILLER0: u64 = 2000;
+const NFILL: u64 = 120;
+
+/// `world::addr_id` re-reads a source file on every call: parse the common shapes locally first
+fn addr_id(s: &str) -> u64 {
+    if let Some(k) = s.strip_prefix("acct") {
+        if let Ok(k) = k.parse::<u64>() {
+            return k;
+        }
+    }
+    if let Some(k) = s.strip_prefix("contract") {
+        if let Ok(k) = k.parse::<u64>() {
+            return 1000 + k;
+        }
+    }
+    lp_harness::world::addr_id(s)
+}
+
+// ------------------------------------------------------------------------------------------------ run-time message surface
+
+/// variants this check has an op for (named ops or `menv what=…`)
+const KNOWN_EXEC: [&str; 15] = [
+    "mint", "purge", "update_mint_price", "update_start_time", "update_end_time", "update_start_trading_time", "update_per_address_limit",
+    "mint_to", "mint_for", "set_whitelist", "shuffle", "burn_remaining", "update_discount_price", "remove_discount_price", "receive_nft",
+];
+const KNOWN_SUDO: [&str; 1] = ["update_status"];
+
+fn exec_schema(kind: MinterKind) -> Value {
+    use cosmwasm_schema::schema_for;
+    let r = match kind {
+        MinterKind::Vending => schema_for!(vending_minter::msg::ExecuteMsg),
+        MinterKind::VendingFeatured => schema_for!(vending_minter_featured::msg::ExecuteMsg),
+        MinterKind::VendingFlex => schema_for!(vending_minter_wl_flex::msg::ExecuteMsg),
+        MinterKind::VendingFlexFeatured => schema_for!(vending_minter_wl_flex_featured::msg::ExecuteMsg),
+        MinterKind::VendingMerkle => schema_for!(vending_minter_merkle_wl::msg::ExecuteMsg),
+        MinterKind::VendingMerkleFeatured => schema_for!(vending_minter_merkle_wl_featured::msg::ExecuteMsg),
+        MinterKind::OpenEdition => schema_for!(open_edition_minter::msg::ExecuteMsg),
+        MinterKind::OpenEditionFlex => schema_for!(open_edition_minter_wl_flex::msg::ExecuteMsg),
+        MinterKind::OpenEditionMerkle => schema_for!(open_edition_minter_merkle_wl::msg::ExecuteMsg),
+        MinterKind::TokenMerge => schema_for!(token_merge_minter::msg::ExecuteMsg),
+        MinterKind::Base => schema_for!(base_minter::msg::ExecuteMsg),
+    };
+    serde_json::to_value(&r).expect("schema to json")
+}
+fn sudo_schema() -> Value {
+    serde_json::to_value(&cosmwasm_schema::schema_for!(sg4::SudoMsg)).expect("schema to json")
+}
+/// (variant name, schema of its payload; Null for a unit variant written as a bare string)
+fn schema_variants(root: &Value) -> Vec<(String, Value)> {
+    let mut out = vec![];
+    let mut alts: Vec<Value> = vec![];
+    for k in ["oneOf", "anyOf"] {
+        if let Some(a) = root[k].as_array() {
+            alts.extend(a.iter().cloned());
+        }
+    }
+    if alts.is_empty() {
+        alts.push(root.clone());
+    }
+    for alt in alts {
+        if let Some(names) = alt["enum"].as_array() {
+            for n in names {
+                if let Some(n) = n.as_str() {
+                    out.push((n.to_string(), Value::Null));
+                }
+            }
+            continue;
+        }
+        if let Some(props) = alt["properties"].as_object() {
+            for (k, v) in props {
+                out.push((k.clone(), v.clone()));
+            }
+        }
+    }
+    out
+}
+/// a minimal JSON value accepted by `node` (all required fields, nothing optional)
+fn minimal_value(node: &Value, defs: &Value, now: u64, depth: u32) -> Value {
+    if depth > 8 || node.is_null() {
+        return Value::Null;
+    }
+    if let Some(r) = node["$ref"].as_str() {
+        let name = r.rsplit('/').next().unwrap_or("");
+        return match name {
+            "Timestamp" | "Uint64" => json!((now + 77).to_string()),
+            "Uint128" | "Uint256" => json!("1"),
+            "Decimal" => json!("0.1"),
+            "Addr" => json!(addr(22)),
+            "Binary" => json!(""),
+            _ => minimal_value(&defs[name], defs, now, depth + 1),
+        };
+    }
+    for key in ["allOf", "oneOf"] {
+        if let Some(a) = node[key].as_array() {
+            if let Some(f) = a.first() {
+                return minimal_value(f, defs, now, depth + 1);
+            }
+        }
+    }
+    if let Some(a) = node["anyOf"].as_array() {
+        if a.iter().any(|x| x["type"] == "null") {
+            return Value::Null;
+        }
+        if let Some(f) = a.first() {
+            return minimal_value(f, defs, now, depth + 1);
+        }
+    }
+    if let Some(e) = node["enum"].as_array() {
+        return e.first().cloned().unwrap_or(Value::Null);
+    }
+    let ty = match &node["type"] {
+        Value::String(t) => t.clone(),
+        Value::Array(ts) => {
+            if ts.iter().any(|t| t == "null") {
+                return Value::Null;
+            }
+            ts.first().and_then(|t| t.as_str()).unwrap_or("object").to_string()
+        }
+        _ => "object".to_string(),
+    };
+    match ty.as_str() {
+        "integer" | "number" => json!(1),
+        "string" => json!(addr(22)),
+        "boolean" => json!(false),
+        "array" => json!([]),
+        "null" => Value::Null,
+        _ => {
+            let mut o = serde_json::Map::new();
+            for r in node["required"].as_array().cloned().unwrap_or_default() {
+                if let Some(k) = r.as_str() {
+                    o.insert(k.to_string(), minimal_value(&node["properties"][k], defs, now, depth + 1));
+                }
+            }
+            Value::Object(o)
+        }
+    }
+}
+/// raw JSON for variant `name` of the enum described by `root` (None when the schema has no such variant)
+fn raw_variant(root: &Value, name: &str, now: u64) -> Option<Value> {
+    let defs = if root["definitions"].is_object() { root["definitions"].clone() } else { root["$defs"].clone() };
+    let (_, payload) = schema_variants(root).into_iter().find(|(n, _)| n == name)?;
+    if payload.is_null() {
+        return Some(Value::String(name.to_string()));
+    }
+    let mut o = serde_json::Map::new();
+    o.insert(name.to_string(), minimal_value(&payload, &defs, now, 0));
+    Some(Value::Object(o))
+}
+fn unknown_exec(kind: MinterKind) -> Vec<String> {
+    schema_variants(&exec_schema(kind)).into_iter().map(|(n, _)| n).filter(|n| !KNOWN_EXEC.contains(&n.as_str())).collect()
+}
+fn unknown_sudo() -> Vec<String> {
+    schema_variants(&sudo_schema()).into_iter().map(|(n, _)| n).filter(|n| !KNOWN_SUDO.contains(&n.as_str())).collect()
+}
 
 type LeafT = (Option<u64>, u64, Option<u64>);
 
@@ -90,14 +265,22 @@ struct StageInfo {
     price: u128,
     per_addr: u64,
     cnt_limit: Option<u64>,
+    /// list kinds: what the whitelist REPORTS (all pages); handed to the model as environment
     members: Vec<(u64, u64)>,
+    /// Merkle kinds: the leaves the harness committed under this stage's root (its own ground truth)
     leaves: Vec<LeafT>,
+    /// GHOST: the price the harness created this stage with (no op of this harness changes a whitelist price)
+    price0: u128,
+    /// GHOST: the addresses the harness itself put on / took off this stage's list (accepted messages only)
+    gmembers: BTreeSet<u64>,
 }
 #[derive(Clone, Debug)]
 struct WlInfo {
     addr: String,
     kind: WlKind,
     denom: u64,
+    /// GHOST: the denom the harness created it with
+    denom0: u64,
     stages: Vec<StageInfo>,
     trees: Vec<Tree>,
 }
@@ -127,17 +310,14 @@ fn parse_ox(s: &str) -> Option<u64> {
     }
 }
 impl WlInfo {
-    /// the monitor's own notion of the stage in force (property text: `start <= now < end`; tiered: the first stage
-    /// whose window contains now, end inclusive as `fetch_active_stage` has it)
-    fn active_stage(&self, now: u64) -> Option<usize> {
-        if self.kind == WlKind::Immutable {
+    /// single-stage kinds only: the property's own notion of "active" (`start <= now < end`). Which stage of a TIERED
+    /// whitelist is in force is asked from the whitelist itself (`S::active_of`): the property text does not fix the
+    /// interval ends nor which of two touching stages wins — property C13 owns that.
+    fn spec_active(&self, now: u64) -> Option<usize> {
+        if self.kind == WlKind::Immutable || is_tiered(self.kind) {
             return None;
         }
-        if is_tiered(self.kind) {
-            self.stages.iter().position(|s| s.start <= now && now <= s.end)
-        } else {
-            self.stages.first().and_then(|s| if s.start <= now && now < s.end { Some(0) } else { None })
-        }
+        self.stages.first().and_then(|s| if s.start <= now && now < s.end { Some(0) } else { None })
     }
     fn describe(&self, k: u64) -> String {
         let st: Vec<String> = self.stages.iter().map(|s| format!("{}:{}:{}:{}:{}", s.start, s.end, s.price, s.per_addr, ox(&s.cnt_limit))).collect();
@@ -183,7 +363,9 @@ fn parse_wl_line(line: &str) -> Option<(u64, WlKind, u64, Vec<StageInfo>)> {
                 })
                 .collect(),
         };
-        stages.push(StageInfo { start: p[0].parse().ok()?, end: p[1].parse().ok()?, price: p[2].parse().ok()?, per_addr: p[3].parse().ok()?, cnt_limit: parse_ox(p[4]), members, leaves });
+        let price: u128 = p[2].parse().ok()?;
+        let gmembers: BTreeSet<u64> = members.iter().map(|m| m.0).collect();
+        stages.push(StageInfo { start: p[0].parse().ok()?, end: p[1].parse().ok()?, price, per_addr: p[3].parse().ok()?, cnt_limit: parse_ox(p[4]), members, leaves, price0: price, gmembers });
     }
     Some((k, kind, denom, stages))
 }
@@ -200,6 +382,21 @@ struct Snap {
     left: Option<u64>,
     price: (u64, u128),
     limit: u64,
+    admin: Option<u64>,
+}
+/// GHOST record of the minter: what the harness asked for in every ACCEPTED message (never read back from the minter)
+#[derive(Clone, Debug, Default, PartialEq)]
+struct Ghost {
+    admin: u64,
+    start: u64,
+    end: Option<u64>,
+    wl: Option<u64>,
+    denom: u64,
+    pub_price: u128,
+    ntok: Option<u64>,
+    /// a price-changing message (`UpdateMintPrice`, discounts, unknown variants, migrate) was accepted: the public price is
+    /// C07's business from here on and the minter's own answer is used for it
+    price_touched: bool,
 }
 #[derive(Clone, Debug)]
 struct MonRec {
@@ -208,9 +405,17 @@ struct MonRec {
     ok: bool,
     pre: Snap,
     post: Snap,
+    g0: Option<Ghost>,
+    g1: Option<Ghost>,
+    /// stage in force of the whitelist attached BEFORE the op (by the ghost record), at the op's instant
+    act: Option<usize>,
+    /// set_wl / create: stage in force of the whitelist that was asked for
+    act_new: Option<usize>,
+    /// a single-stage whitelist whose own `is_active` answer differs from `start <= now < end`: (kind name, detail)
+    wl_incons: Option<(String, String)>,
     sender: u64,
     leaf: LeafT,
-    proof_presented: bool,
+    proof: String,
     charged: [i128; 2],
     new_t: u64,
 }
@@ -223,15 +428,17 @@ struct S {
     airp: u128,
     factory: String,
     minter: Option<String>,
+    coll: Option<String>,
+    ghost: Option<Ghost>,
+    minp0: u128,
     src_minter: String,
     src_coll: String,
     src_next: u64,
     src_owned: BTreeMap<u64, Vec<u64>>,
     wls: BTreeMap<u64, WlInfo>,
     last: Option<MonRec>,
-    frozen_start: Option<u64>,
-    frozen_end: Option<u64>,
-    frozen_wl: Option<Option<u64>>,
+    exec_schema: Value,
+    sudo_schema: Value,
 }
 
 fn variant_kind(i: usize) -> MinterKind {
@@ -262,15 +469,17 @@ impl S {
             airp: 0,
             factory: String::new(),
             minter: None,
+            coll: None,
+            ghost: None,
+            minp0: 0,
             src_minter: String::new(),
             src_coll: String::new(),
             src_next: 0,
             src_owned: BTreeMap::new(),
             wls: BTreeMap::new(),
             last: None,
-            frozen_start: None,
-            frozen_end: None,
-            frozen_wl: None,
+            exec_schema: Value::Null,
+            sudo_schema: sudo_schema(),
         }
     }
     fn wl_key_of(&self, a: &str) -> Option<u64> {
@@ -284,6 +493,7 @@ impl S {
         s.start = nanos(&c["start_time"]).unwrap_or(0);
         s.end = nanos(&c["end_time"]);
         s.wl = c["whitelist"].as_str().map(|a| self.wl_key_of(a).unwrap_or(999_999));
+        s.admin = c["admin"].as_str().map(addr_id);
         if let Some(mp) = c.get("mint_price") {
             if let (Some(d), Some(a)) = (mp["denom"].as_str(), mp["amount"].as_str()) {
                 s.price = (denom_id(d), a.parse().unwrap_or(0));
@@ -301,11 +511,12 @@ impl S {
         s.limit = c["per_address_limit"].as_u64().unwrap_or(0);
         s
     }
+    /// `st= en= wl=` is what C04 constrains (primary); the supply is C01's (drift)
     fn obs(s: &Snap) -> String {
         if !s.exists {
-            return "st=- en=- wl=- left=-".into();
+            return "st=- en=- wl=- ## left=-".into();
         }
-        format!("st={} en={} wl={} left={}", s.start, fmt_opt(&s.end), fmt_opt(&s.wl), fmt_opt(&s.left))
+        format!("st={} en={} wl={} ## left={}", s.start, fmt_opt(&s.end), fmt_opt(&s.wl), fmt_opt(&s.left))
     }
     fn count_of(&self, a: u64) -> String {
         let Some(m) = &self.minter else { return "cnt=-".into() };
@@ -315,7 +526,39 @@ impl S {
         }
     }
 
-    /// refresh our description of whitelist `k` from what the real contract reports (leaves: our own ground truth)
+    /// every page of a whitelist's `Members` query (the page size is the whitelist's business)
+    fn all_members(&self, a: &str, stage: Option<usize>) -> Vec<(u64, u64)> {
+        let mut out: Vec<(u64, u64)> = vec![];
+        let mut after: Option<String> = None;
+        for _ in 0..200 {
+            let mut q = json!({"limit": 100, "start_after": after});
+            if let Some(i) = stage {
+                q["stage_id"] = json!(i);
+            }
+            let Ok(m) = self.w.query(a, &json!({ "members": q })) else { break };
+            let Some(arr) = m["members"].as_array() else { break };
+            if arr.is_empty() {
+                break;
+            }
+            let mut last = None;
+            for x in arr {
+                let (s, c) = match x.as_str() {
+                    Some(s) => (s.to_string(), 0),
+                    None => (x["address"].as_str().unwrap_or("").to_string(), x["mint_count"].as_u64().unwrap_or(0)),
+                };
+                out.push((addr_id(&s), c));
+                last = Some(s);
+            }
+            if last == after {
+                break;
+            }
+            after = last;
+        }
+        out
+    }
+
+    /// refresh our description of whitelist `k` from what the real contract reports (windows, prices, limits, member lists:
+    /// environment for this property). The ghost fields (`price0`, `gmembers`, `leaves`, `denom0`) are NOT touched here.
     fn observe(&mut self, k: u64) {
         let Some(info) = self.wls.get(&k).cloned() else { return };
         let mut info = info;
@@ -327,23 +570,13 @@ impl S {
                 let c = self.w.query(&a, &json!({"config":{}})).expect("wl config");
                 let (d, p) = coin_of(&c["mint_price"]);
                 info.denom = d;
+                let members = if info.kind != WlKind::Merkle { self.all_members(&a, None) } else { vec![] };
                 let st = &mut info.stages[0];
                 st.start = nanos(&c["start_time"]).unwrap();
                 st.end = nanos(&c["end_time"]).unwrap();
                 st.price = p;
                 st.per_addr = c["per_address_limit"].as_u64().unwrap_or(0);
-                if info.kind != WlKind::Merkle {
-                    let m = self.w.query(&a, &json!({"members":{"limit":100}})).expect("members");
-                    st.members = m["members"]
-                        .as_array()
-                        .unwrap()
-                        .iter()
-                        .map(|x| match x.as_str() {
-                            Some(s) => (addr_id(s), 0),
-                            None => (addr_id(x["address"].as_str().unwrap()), x["mint_count"].as_u64().unwrap()),
-                        })
-                        .collect();
-                }
+                st.members = members;
             }
             WlKind::Tiered | WlKind::TieredFlex | WlKind::TieredMerkle => {
                 let r = self.w.query(&a, &json!({"stages":{}})).expect("stages");
@@ -354,6 +587,7 @@ impl S {
                     let sg = &s["stage"];
                     let (d, p) = coin_of(&sg["mint_price"]);
                     info.denom = d;
+                    let o = old.get(i);
                     let mut st = StageInfo {
                         start: nanos(&sg["start_time"]).unwrap(),
                         end: nanos(&sg["end_time"]).unwrap(),
@@ -361,19 +595,12 @@ impl S {
                         per_addr: sg["per_address_limit"].as_u64().unwrap_or(0),
                         cnt_limit: sg["mint_count_limit"].as_u64(),
                         members: vec![],
-                        leaves: old.get(i).map(|o| o.leaves.clone()).unwrap_or_default(),
+                        leaves: o.map(|o| o.leaves.clone()).unwrap_or_default(),
+                        price0: o.map(|o| o.price0).unwrap_or(p),
+                        gmembers: o.map(|o| o.gmembers.clone()).unwrap_or_default(),
                     };
                     if info.kind != WlKind::TieredMerkle {
-                        let m = self.w.query(&a, &json!({"members":{"limit":100, "stage_id": i}})).expect("members");
-                        st.members = m["members"]
-                            .as_array()
-                            .unwrap()
-                            .iter()
-                            .map(|x| match x.as_str() {
-                                Some(s) => (addr_id(s), 0),
-                                None => (addr_id(x["address"].as_str().unwrap()), x["mint_count"].as_u64().unwrap()),
-                            })
-                            .collect();
+                        st.members = self.all_members(&a, Some(i));
                     }
                     info.stages.push(st);
                 }
@@ -391,7 +618,7 @@ impl S {
         let trees: Vec<Tree> = stages.iter().map(|s| Tree::build(tiered, &s.leaves)).collect();
         let args = WlArgs {
             admin: WLADMIN,
-            member_limit: 1000,
+            member_limit: kv_u64(line, "ml").unwrap_or(1000) as u32,
             admins_mutable: true,
             whale_cap: None,
             stages: stages
@@ -415,7 +642,7 @@ impl S {
         };
         match self.w.new_whitelist(kind, &args) {
             Ok(a) => {
-                self.wls.insert(k, WlInfo { addr: a, kind, denom, stages: if kind == WlKind::Immutable { vec![] } else { stages }, trees });
+                self.wls.insert(k, WlInfo { addr: a, kind, denom, denom0: denom, stages: if kind == WlKind::Immutable { vec![] } else { stages }, trees });
                 self.observe(k);
                 true
             }
@@ -425,6 +652,62 @@ impl S {
 
     fn wl_addr(&self, k: u64) -> String {
         self.wls.get(&k).map(|i| i.addr.clone()).unwrap_or_else(|| addr(9000 + k))
+    }
+
+    /// the stage of whitelist `k` that is in force NOW. Tiered kinds: the whitelist's own `ActiveStageId` answer (C13 owns
+    /// the interval semantics); single-stage kinds: the property's `start <= now < end` on the window the whitelist reports.
+    fn active_of(&self, k: u64) -> Option<usize> {
+        let info = self.wls.get(&k)?;
+        if info.kind == WlKind::Immutable || info.stages.is_empty() {
+            return None;
+        }
+        if is_tiered(info.kind) {
+            let v = self.w.query(&info.addr, &json!({"active_stage_id":{}})).ok()?;
+            let id = v.as_u64()?;
+            if id == 0 || id as usize > info.stages.len() {
+                None
+            } else {
+                Some(id as usize - 1)
+            }
+        } else {
+            info.spec_active(self.w.time())
+        }
+    }
+    /// single-stage whitelist `k`: does its own `is_active` answer differ from `start <= now < end`?
+    fn is_active_inconsistent(&self, k: u64) -> Option<(String, String)> {
+        let info = self.wls.get(&k)?;
+        if info.kind == WlKind::Immutable || is_tiered(info.kind) || info.stages.is_empty() {
+            return None;
+        }
+        let now = self.w.time();
+        let want = info.spec_active(now).is_some();
+        let c = self.w.query(&info.addr, &json!({"config":{}})).ok()?;
+        let got = c["is_active"].as_bool()?;
+        if got != want {
+            let name = match info.kind {
+                WlKind::Plain => "sg-whitelist",
+                WlKind::Flex => "sg-whitelist-flex",
+                _ => "whitelist-merkletree",
+            };
+            return Some((name.to_string(), format!("window [{}, {}) at now={now}: `start <= now < end` is {want}, the whitelist's is_active says {got}", info.stages[0].start, info.stages[0].end)));
+        }
+        None
+    }
+    /// what a buyer must pay NOW according to the harness's own record: the price it created the stage in force with, else
+    /// the public price it created the minter with (after an accepted price-changing message: the minter's own answer)
+    fn expected_price(&self) -> Option<(u64, u128)> {
+        let g = self.ghost.as_ref()?;
+        if let Some(k) = g.wl {
+            if let Some(si) = self.active_of(k) {
+                let i = &self.wls[&k];
+                return Some((i.denom0, i.stages[si].price0));
+            }
+        }
+        if g.price_touched {
+            Some(self.snap().price)
+        } else {
+            Some((g.denom, g.pub_price))
+        }
     }
 
     /// make sure `owner` holds a token of the source collection (token-merge), return its id
@@ -446,35 +729,60 @@ impl S {
         id
     }
 
-    fn proof_hashes(&self, spec: &str) -> (Value, bool) {
-        // returns (json for proof_hashes, presented?)
+    fn proof_hashes(&self, spec: &str) -> Value {
         match spec {
-            "-" => (Value::Null, false),
-            "b" => (json!(["zz-not-hex", "1234"]), true),
+            "-" => Value::Null,
+            "b" => json!(["zz-not-hex", "1234"]),
             "j" => {
-                // well-formed digests that are no path: both digest sizes tried by kind of attached whitelist
+                // well-formed digests that are no path: the digest size of the attached whitelist's kind
                 let tiered = self.snap().wl.and_then(|k| self.wls.get(&k)).map(|i| is_tiered(i.kind)).unwrap_or(false);
                 let n = if tiered { 16 } else { 32 };
-                (json!([hex::encode(vec![0xabu8; n]), hex::encode(vec![0x17u8; n])]), true)
+                json!([hex::encode(vec![0xabu8; n]), hex::encode(vec![0x17u8; n])])
             }
+            "e" => json!([]),
             p => {
                 let q: Vec<&str> = p.split('.').collect();
                 if q.len() != 6 {
-                    return (Value::Null, false);
+                    return Value::Null;
                 }
                 let k: u64 = q[1].parse().unwrap_or(0);
                 let i: usize = q[2].parse().unwrap_or(0);
                 let leaf: LeafT = (parse_ox(q[3]), q[4].parse().unwrap_or(0), parse_ox(q[5]));
-                let Some(info) = self.wls.get(&k) else { return (json!([]), true) };
-                let Some(st) = info.stages.get(i) else { return (json!([]), true) };
+                let Some(info) = self.wls.get(&k) else { return json!([]) };
+                let Some(st) = info.stages.get(i) else { return json!([]) };
                 match st.leaves.iter().position(|l| *l == leaf) {
-                    Some(pos) => (json!(info.trees[i].proof(pos)), true),
-                    None => (json!([hex::encode(vec![1u8; if is_tiered(info.kind) { 16 } else { 32 }])]), true),
+                    Some(pos) => json!(info.trees[i].proof(pos)),
+                    None => json!([hex::encode(vec![1u8; if is_tiered(info.kind) { 16 } else { 32 }])]),
                 }
             }
         }
     }
+
+    /// run the crate's `migrate` for real: rewrite the cw2 version to `ver` first (with the same version `migrate` returns early)
+    fn do_migrate(&mut self, ver: &str) -> bool {
+        let Some(m) = self.minter.clone() else { return false };
+        let a = cosmwasm_std::Addr::unchecked(&m);
+        let old = {
+            let st = self.w.app.contract_storage(&a);
+            cw2::get_contract_version(&*st).ok()
+        };
+        if let (Some(old), true) = (&old, ver != "same") {
+            let mut st = self.w.app.contract_storage_mut(&a);
+            let _ = cw2::set_contract_version(&mut *st, old.contract.clone(), ver.to_string());
+        }
+        let code = self.w.codes.minters[self.kind.idx()];
+        let admin = self.ghost.as_ref().map(|g| g.admin).unwrap_or(ADMIN);
+        let r = self.w.migrate(&addr(admin), &m, code, &json!({}));
+        if r.is_err() {
+            if let Some(old) = old {
+                let mut st = self.w.app.contract_storage_mut(&a);
+                let _ = cw2::set_contract_version(&mut *st, old.contract, old.version);
+            }
+        }
+        r.is_ok()
+    }
 }
+
 
 impl Sut for S {
     fn begin(&mut self, header: &str) -> (String, String) {
@@ -484,7 +792,8 @@ impl Sut for S {
         self.denom = kv_u64(header, "denom").unwrap_or(0);
         let mut w = World::new(now);
         let mut p = w.default_params(self.kind);
-        p.min_mint_price = (self.denom, kv_u128(header, "minp").unwrap_or(0));
+        self.minp0 = kv_u128(header, "minp").unwrap_or(0);
+        p.min_mint_price = (self.denom, self.minp0);
         self.airp = kv_u128(header, "airp").unwrap_or(0);
         p.airdrop_mint_price = (self.denom, self.airp);
         p.max_token_limit = kv_u64(header, "maxtok").unwrap_or(100) as u32;
@@ -504,19 +813,25 @@ impl Sut for S {
             self.src_minter = mb;
             self.src_coll = cb;
         }
-        for b in 20..40u64 {
+        // floor cases use a fresh buyer for every probe
+        let hi = if header.contains(" floor") { 140 } else { 40 };
+        for b in 20..hi {
             w.fund(&addr(b), 0, 1_000_000_000_000_000);
             w.fund(&addr(b), 1, 1_000_000_000_000_000);
+        }
+        if hi > 40 {
+            w.fund(&addr(BIG), 0, 1_000_000_000_000_000);
+            w.fund(&addr(BIG), 1, 1_000_000_000_000_000);
         }
         w.fund(&addr(ADMIN), 0, 1_000_000_000_000_000);
         w.fund(&addr(ADMIN), 1, 1_000_000_000_000_000);
         self.w = w;
         self.minter = None;
+        self.coll = None;
+        self.ghost = None;
         self.wls.clear();
         self.last = None;
-        self.frozen_start = None;
-        self.frozen_end = None;
-        self.frozen_wl = None;
+        self.exec_schema = exec_schema(self.kind);
         (header.to_string(), "case".to_string())
     }
 
@@ -533,6 +848,7 @@ impl Sut for S {
                 let k = kv_u64(line, "k").unwrap_or(0);
                 let Some(info) = self.wls.get(&k).cloned() else { return ("noop".into(), "env".into()) };
                 let stage = kv_u64(line, "stage").unwrap_or(0);
+                let who = kv_u64(line, "a").unwrap_or(0);
                 let msg = match op.as_str() {
                     "wl_time" => {
                         let t = kv_u64(line, "t").unwrap_or(0).to_string();
@@ -545,7 +861,7 @@ impl Sut for S {
                     "wl_stage" => json!({"update_stage_config": {"stage_id": stage, "start_time": kv_u64(line, "start").map(|t| t.to_string()),
                         "end_time": kv_u64(line, "end").map(|t| t.to_string())}}),
                     "wl_add" => {
-                        let a = addr(kv_u64(line, "a").unwrap_or(0));
+                        let a = addr(who);
                         let m = if is_flex(info.kind) { json!({"address": a, "mint_count": kv_u64(line, "c").unwrap_or(1)}) } else { json!(a) };
                         if is_tiered(info.kind) {
                             json!({"add_members": {"to_add": [m], "stage_id": stage}})
@@ -554,7 +870,7 @@ impl Sut for S {
                         }
                     }
                     _ => {
-                        let a = addr(kv_u64(line, "a").unwrap_or(0));
+                        let a = addr(who);
                         if is_tiered(info.kind) {
                             json!({"remove_members": {"to_remove": [a], "stage_id": stage}})
                         } else {
@@ -562,8 +878,19 @@ impl Sut for S {
                         }
                     }
                 };
-                let _ = self.w.exec(&addr(WLADMIN), &info.addr, &msg, &[]);
+                let accepted = self.w.exec(&addr(WLADMIN), &info.addr, &msg, &[]).is_ok();
                 self.observe(k);
+                // ghost member lists: what the harness itself put on / took off (accepted messages only)
+                if accepted {
+                    let si = if is_tiered(info.kind) { stage as usize } else { 0 };
+                    if let Some(st) = self.wls.get_mut(&k).and_then(|i| i.stages.get_mut(si)) {
+                        if op == "wl_add" {
+                            st.gmembers.insert(who);
+                        } else if op == "wl_rm" {
+                            st.gmembers.remove(&who);
+                        }
+                    }
+                }
                 return (self.wls[&k].describe(k), "env".into());
             }
             "t" => {
@@ -572,63 +899,123 @@ impl Sut for S {
                     return (line.to_string(), "err".into());
                 }
                 self.w.set_time(t);
-                // sticky facts for the history monitors
-                let s = self.snap();
-                if s.exists {
-                    if s.now >= s.start && self.frozen_start.is_none() {
-                        self.frozen_start = Some(s.start);
-                        self.frozen_wl = Some(s.wl);
-                    }
-                    if let Some(e) = s.end {
-                        if s.now >= e && self.frozen_end.is_none() {
-                            self.frozen_end = Some(e);
-                        }
-                    }
-                }
                 return (line.to_string(), "ok".into());
             }
             "menv" => {
-                // any other minter message; the model only learns what can be observed afterwards
+                // any other minter message (incl. migrate and variants this check has never heard of); the model only learns
+                // what can be observed afterwards
                 let Some(m) = self.minter.clone() else { return ("noop".into(), "env".into()) };
                 let pre = self.snap();
+                let g0 = self.ghost.clone();
                 let what = kv(line, "what").unwrap_or("");
                 let arg = kv_u128(line, "arg").unwrap_or(0);
                 let who = addr(kv_u64(line, "sender").unwrap_or(ADMIN));
+                let now = self.w.time();
                 let mut purged = false;
-                let r = match what {
-                    "upd_price" => self.w.exec(&who, &m, &json!({"update_mint_price": {"price": arg.to_string()}}), &[]),
-                    "upd_limit" => self.w.exec(&who, &m, &json!({"update_per_address_limit": {"per_address_limit": arg as u64}}), &[]),
+                let mut touches_price = false;
+                let r: Result<(), String> = match what {
+                    "upd_price" => {
+                        touches_price = true;
+                        self.w.exec(&who, &m, &json!({"update_mint_price": {"price": arg.to_string()}}), &[]).map(|_| ())
+                    }
+                    "upd_limit" => self.w.exec(&who, &m, &json!({"update_per_address_limit": {"per_address_limit": arg as u64}}), &[]).map(|_| ()),
                     "purge" => {
                         let r = self.w.exec(&who, &m, &json!({"purge": {}}), &[]);
                         purged = r.is_ok();
-                        r
+                        r.map(|_| ())
                     }
                     "shuffle" => {
                         self.w.fund(&who, 0, 500_000_000);
-                        self.w.exec(&who, &m, &json!({"shuffle": {}}), &[(0, 500_000_000)])
+                        self.w.exec(&who, &m, &json!({"shuffle": {}}), &[(0, 500_000_000)]).map(|_| ())
                     }
-                    "burn" => self.w.exec(&who, &m, &json!({"burn_remaining": {}}), &[]),
-                    "trading" => self.w.exec(&who, &m, &json!({"update_start_trading_time": (arg as u64).to_string()}), &[]),
-                    "discount" => self.w.exec(&who, &m, &json!({"update_discount_price": {"price": arg.to_string()}}), &[]),
-                    "rm_discount" => self.w.exec(&who, &m, &json!({"remove_discount_price": {}}), &[]),
-                    _ => self.w.sudo(&m, &json!({"update_status": {"is_verified": arg % 2 == 1, "is_blocked": arg % 4 >= 2, "is_explicit": arg % 8 >= 4}})),
+                    "burn" => self.w.exec(&who, &m, &json!({"burn_remaining": {}}), &[]).map(|_| ()),
+                    "trading" => self.w.exec(&who, &m, &json!({"update_start_trading_time": (arg as u64).to_string()}), &[]).map(|_| ()),
+                    "discount" => {
+                        touches_price = true;
+                        self.w.exec(&who, &m, &json!({"update_discount_price": {"price": arg.to_string()}}), &[]).map(|_| ())
+                    }
+                    "rm_discount" => {
+                        touches_price = true;
+                        self.w.exec(&who, &m, &json!({"remove_discount_price": {}}), &[]).map(|_| ())
+                    }
+                    "migrate" => {
+                        touches_price = true;
+                        let ver = kv(line, "ver").unwrap_or("same").to_string();
+                        if self.do_migrate(&ver) {
+                            Ok(())
+                        } else {
+                            Err("migrate".into())
+                        }
+                    }
+                    x if x.starts_with("x.") => {
+                        touches_price = true;
+                        match raw_variant(&self.exec_schema, &x[2..], now) {
+                            Some(msg) => self.w.exec(&who, &m, &msg, &[]).map(|_| ()),
+                            None => Err("no such variant".into()),
+                        }
+                    }
+                    x if x.starts_with("s.") => {
+                        touches_price = true;
+                        match raw_variant(&self.sudo_schema, &x[2..], now) {
+                            Some(msg) => self.w.sudo(&m, &msg).map(|_| ()),
+                            None => Err("no such variant".into()),
+                        }
+                    }
+                    _ => self.w.sudo(&m, &json!({"update_status": {"is_verified": arg % 2 == 1, "is_blocked": arg % 4 >= 2, "is_explicit": arg % 8 >= 4}})).map(|_| ()),
                 };
                 let ok = r.is_ok();
+                if ok && touches_price {
+                    if let Some(g) = self.ghost.as_mut() {
+                        g.price_touched = true;
+                    }
+                }
                 let post = self.snap();
-                self.last = Some(MonRec { line: line.to_string(), op: "menv".into(), ok, pre, post: post.clone(), sender: 0, leaf: (None, 0, None), proof_presented: false, charged: [0, 0], new_t: 0 });
+                let g1 = self.ghost.clone();
+                self.last = Some(MonRec { line: line.to_string(), op: "menv".into(), ok, pre, post: post.clone(), g0, g1, act: None, act_new: None, wl_incons: None, sender: 0, leaf: (None, 0, None), proof: "-".into(), charged: [0, 0], new_t: 0 });
                 let pw = purged && self.kind.is_flex();
                 return (
                     format!("menv price={} limit={} left={} pp={} pw={}", post.price.1, post.limit, fmt_opt(&post.left), purged as u8, pw as u8),
                     format!("env {}", S::obs(&post)),
                 );
             }
+            "fsudo" => {
+                // factory governance: `sudo UpdateParams` (the model takes over what the factory reports afterwards)
+                let pre = self.snap();
+                let g0 = self.ghost.clone();
+                let minp = kv_u128(line, "minp").unwrap_or(0);
+                let airp = kv_u128(line, "airp").unwrap_or(0);
+                let msg = match self.kind.factory() {
+                    FactoryKind::TokenMerge => json!({"update_params": {"extension": {"airdrop_mint_price": jcoin((self.denom, airp))}}}),
+                    _ => json!({"update_params": {"min_mint_price": jcoin((self.denom, minp)), "extension": {"airdrop_mint_price": jcoin((self.denom, airp))}}}),
+                };
+                let f = self.factory.clone();
+                let ok = self.w.sudo(&f, &msg).is_ok();
+                let (mut ominp, mut oairp) = (self.minp0, self.airp);
+                if let Ok(v) = self.w.query(&f, &json!({"params":{}})) {
+                    let pp = &v["params"];
+                    let amt = |x: &Value| x["amount"].as_str().and_then(|a| a.parse::<u128>().ok());
+                    if let Some(a) = amt(&pp["min_mint_price"]) {
+                        ominp = a;
+                    }
+                    if let Some(a) = amt(&pp["extension"]["airdrop_mint_price"]).or(amt(&pp["airdrop_mint_price"])) {
+                        oairp = a;
+                    }
+                }
+                self.minp0 = ominp;
+                self.airp = oairp;
+                let post = self.snap();
+                let g1 = self.ghost.clone();
+                self.last = Some(MonRec { line: line.to_string(), op: "fsudo".into(), ok, pre, post: post.clone(), g0, g1, act: None, act_new: None, wl_incons: None, sender: 0, leaf: (None, 0, None), proof: "-".into(), charged: [0, 0], new_t: 0 });
+                return (format!("fsudo minp={ominp} airp={oairp}"), format!("env {}", S::obs(&post)));
+            }
             "price" => {
+                // the MintPrice answer is property C07's: outside the projection
                 let Some(m) = &self.minter else { return (line.to_string(), "err".into()) };
                 return match self.w.query(m, &json!({"mint_price":{}})) {
                     Ok(v) => {
                         let c = |x: &Value| format!("{}:{}", denom_id(x["denom"].as_str().unwrap_or("")), x["amount"].as_str().unwrap_or("?"));
                         let wlp = if v["whitelist_price"].is_null() { "-".to_string() } else { c(&v["whitelist_price"]) };
-                        (line.to_string(), format!("ok cur={} wlp={}", c(&v["current_price"]), wlp))
+                        (line.to_string(), format!("ok ## cur={} wlp={}", c(&v["current_price"]), wlp))
                     }
                     Err(_) => (line.to_string(), "err".into()),
                 };
@@ -638,14 +1025,21 @@ impl Sut for S {
 
         // ---- minter operations
         let pre = self.snap();
+        let g0 = self.ghost.clone();
         let sender = kv_u64(line, "sender").unwrap_or(0);
         let funds: Vec<(u64, u128)> = kv_pairs(line, "funds").unwrap_or_default().into_iter().map(|(d, a)| (d as u64, a)).collect();
         let bal = |s: &S, a: u64| -> [i128; 2] { [s.w.balance(&addr(a), 0) as i128, s.w.balance(&addr(a), 1) as i128] };
         let b0 = bal(self, sender);
         let mut leaf: LeafT = (None, sender, None);
-        let mut proof_presented = false;
+        let mut proof = "-".to_string();
         let mut cnt_addr: Option<u64> = None;
         let mut new_t = 0u64;
+        let mut witness = String::new();
+        let attached = g0.as_ref().and_then(|g| g.wl);
+        let act = attached.and_then(|k| self.active_of(k));
+        let mut act_new: Option<usize> = None;
+        let mut wl_incons = attached.and_then(|k| self.is_active_inconsistent(k));
+        let mut new_ghost: Option<Ghost> = None;
         let ok: bool = match op.as_str() {
             "create" => {
                 if self.minter.is_some() {
@@ -656,7 +1050,8 @@ impl Sut for S {
                     a.creator = sender;
                     a.start_time = kv_u64(line, "start").unwrap_or(0);
                     a.end_time = kv_opt_u64(line, "end").unwrap_or(None);
-                    a.whitelist = kv_opt_u64(line, "wl").unwrap_or(None).map(|k| self.wl_addr(k));
+                    let wlk = kv_opt_u64(line, "wl").unwrap_or(None);
+                    a.whitelist = wlk.map(|k| self.wl_addr(k));
                     a.mint_price = (self.denom, kv_u128(line, "price").unwrap_or(0));
                     a.per_address_limit = kv_u64(line, "limit").unwrap_or(1) as u32;
                     a.num_tokens = kv_opt_u64(line, "ntok").unwrap_or(None).map(|n| n as u32);
@@ -666,9 +1061,27 @@ impl Sut for S {
                         a.payment_address = None;
                     }
                     a.funds = vec![(0, 5_000_000_000)];
+                    let tm = self.kind == MinterKind::TokenMerge;
+                    if !tm {
+                        act_new = wlk.and_then(|k| self.active_of(k));
+                        if wl_incons.is_none() {
+                            wl_incons = wlk.and_then(|k| self.is_active_inconsistent(k));
+                        }
+                    }
                     match self.w.create_minter(&self.factory.clone(), self.kind, &a) {
-                        Ok((m, _c)) => {
+                        Ok((m, c)) => {
                             self.minter = Some(m);
+                            self.coll = Some(c);
+                            new_ghost = Some(Ghost {
+                                admin: sender,
+                                start: a.start_time,
+                                end: if self.kind.is_open_edition() { a.end_time } else { None },
+                                wl: if tm { None } else { wlk },
+                                denom: self.denom,
+                                pub_price: a.mint_price.1,
+                                ntok: a.num_tokens.map(|n| n as u64),
+                                price_touched: false,
+                            });
                             true
                         }
                         Err(_) => false,
@@ -683,8 +1096,8 @@ impl Sut for S {
                     let stage = kv_opt_u64(line, "stage").unwrap_or(None);
                     let alloc = kv_opt_u64(line, "alloc").unwrap_or(None);
                     leaf = (stage, sender, alloc);
-                    let (ph, presented) = self.proof_hashes(kv(line, "proof").unwrap_or("-"));
-                    proof_presented = presented;
+                    proof = kv(line, "proof").unwrap_or("-").to_string();
+                    let ph = self.proof_hashes(&proof);
                     json!({"mint": {"stage": stage, "proof_hashes": ph, "allocation": alloc}})
                 } else {
                     json!({"mint": {}})
@@ -692,13 +1105,11 @@ impl Sut for S {
                 if self.kind == MinterKind::TokenMerge {
                     false
                 } else {
-                    {
-                        let r = self.w.exec(&addr(sender), &m, &msg, &funds);
-                        if let (Err(e), true) = (&r, std::env::var("C04_DEBUG").is_ok()) {
-                            eprintln!("DBG v{} {} => {}", self.vidx, line, e.lines().last().unwrap_or("").rsplit("}: ").next().unwrap_or("").to_string());
-                        }
-                        r.is_ok()
+                    let r = self.w.exec(&addr(sender), &m, &msg, &funds);
+                    if let (Err(e), true) = (&r, std::env::var("C04_DEBUG").is_ok()) {
+                        eprintln!("DBG v{} {} => {}", self.vidx, line, e.lines().last().unwrap_or("").rsplit("}: ").next().unwrap_or("").to_string());
                     }
+                    r.is_ok()
                 }
             }
             "mint_to" => {
@@ -706,6 +1117,19 @@ impl Sut for S {
                 cnt_addr = Some(if self.kind == MinterKind::TokenMerge { r } else { sender });
                 let m = self.minter.clone().unwrap();
                 self.w.exec(&addr(sender), &m, &json!({"mint_to": {"recipient": addr(r)}}), &funds).is_ok()
+            }
+            "mint_for" => {
+                let r = kv_u64(line, "rcpt").unwrap_or(0);
+                let tok = kv_u64(line, "token").unwrap_or(0);
+                cnt_addr = Some(if self.kind == MinterKind::TokenMerge { r } else { sender });
+                // witness for the model: the id is in range (the harness's own record of num_tokens) and not yet minted
+                // (asked from the COLLECTION, not from the minter under test)
+                let ntok = g0.as_ref().and_then(|g| g.ntok).unwrap_or(0);
+                let minted = self.coll.as_ref().map(|c| self.w.query(c, &json!({"owner_of": {"token_id": tok.to_string()}})).is_ok()).unwrap_or(false);
+                let free = tok >= 1 && tok <= ntok && !minted;
+                witness = format!(" free={}", free as u8);
+                let m = self.minter.clone().unwrap();
+                self.w.exec(&addr(sender), &m, &json!({"mint_for": {"token_id": tok, "recipient": addr(r)}}), &funds).is_ok()
             }
             "deposit" => {
                 let r = kv_opt_u64(line, "rcpt").unwrap_or(None);
@@ -726,24 +1150,60 @@ impl Sut for S {
             "upd_start" => {
                 new_t = kv_u64(line, "t").unwrap_or(0);
                 let m = self.minter.clone().unwrap();
-                self.w.exec(&addr(sender), &m, &json!({"update_start_time": new_t.to_string()}), &[]).is_ok()
+                let ok = self.w.exec(&addr(sender), &m, &json!({"update_start_time": new_t.to_string()}), &[]).is_ok();
+                if ok {
+                    new_ghost = g0.clone().map(|g| Ghost { start: new_t, ..g });
+                }
+                ok
             }
             "upd_end" => {
                 new_t = kv_u64(line, "t").unwrap_or(0);
                 let m = self.minter.clone().unwrap();
-                self.w.exec(&addr(sender), &m, &json!({"update_end_time": new_t.to_string()}), &[]).is_ok()
+                let ok = self.w.exec(&addr(sender), &m, &json!({"update_end_time": new_t.to_string()}), &[]).is_ok();
+                if ok {
+                    new_ghost = g0.clone().map(|g| Ghost { end: Some(new_t), ..g });
+                }
+                ok
             }
             "set_wl" => {
                 let k = kv_u64(line, "wl").unwrap_or(0);
+                act_new = self.active_of(k);
+                if wl_incons.is_none() {
+                    wl_incons = self.is_active_inconsistent(k);
+                }
                 let m = self.minter.clone().unwrap();
                 let a = self.wl_addr(k);
-                self.w.exec(&addr(sender), &m, &json!({"set_whitelist": {"whitelist": a}}), &[]).is_ok()
+                let ok = self.w.exec(&addr(sender), &m, &json!({"set_whitelist": {"whitelist": a}}), &[]).is_ok();
+                if ok {
+                    new_ghost = g0.clone().map(|g| Ghost { wl: Some(k), ..g });
+                }
+                ok
             }
             _ => return (line.to_string(), "bad-op".into()),
         };
+        if let Some(g) = new_ghost {
+            self.ghost = Some(g);
+        }
         let post = self.snap();
         let b1 = bal(self, sender);
-        self.last = Some(MonRec { line: line.to_string(), op: op.clone(), ok, pre, post: post.clone(), sender, leaf, proof_presented, charged: [b0[0] - b1[0], b0[1] - b1[1]], new_t });
+        let g1 = self.ghost.clone();
+        self.last = Some(MonRec {
+            line: line.to_string(),
+            op: op.clone(),
+            ok,
+            pre,
+            post: post.clone(),
+            g0,
+            g1,
+            act,
+            act_new,
+            wl_incons,
+            sender,
+            leaf,
+            proof,
+            charged: [b0[0] - b1[0], b0[1] - b1[1]],
+            new_t,
+        });
         let out = if ok {
             match cnt_addr {
                 Some(a) => format!("ok {} {}", S::obs(&post), self.count_of(a)),
@@ -752,162 +1212,179 @@ impl Sut for S {
         } else {
             "err".to_string()
         };
-        (line.to_string(), out)
+        (format!("{line}{witness}"), out)
     }
 
-    /// Direct transcription of the property on the implementation's own trace (independent of the Lean model).
+    /// Direct transcription of the property on the implementation's own trace, evaluated on the harness's OWN record
+    /// (`Ghost`, ghost member lists / leaves / prices) — independent of the Lean model and of the minter's own answers.
     fn monitor(&mut self) -> Option<(String, String)> {
         let r = self.last.clone()?;
         let name = self.kind.name();
-        let bad = |op: &str, p: &str, w: String| Some((format!("{name}/{op}/{p}"), format!("{w} on `{}` (now={}, pre={:?}, post={:?})", r.line, r.pre.now, r.pre, r.post)));
+        let bad = |op: &str, p: &str, w: String| Some((format!("{name}/{op}/{p}"), format!("{w} on `{}` (now={}, record before={:?}, record after={:?}, stored after={:?})", r.line, r.pre.now, r.g0, r.g1, r.post)));
         let now = r.pre.now;
         let oe = self.kind.is_open_edition();
-        // history: once the start / end has passed it never changes; the whitelist never changes after start
-        if r.post.exists {
-            if let Some(f) = self.frozen_start {
-                if r.post.start != f {
-                    return bad(&r.op, "start-changed-after-start", format!("start was {f} and had passed, now {}", r.post.start));
+        let op = r.op.as_str();
+        if let Some((wn, d)) = &r.wl_incons {
+            return Some((format!("{wn}/is_active/differs-from-start-le-now-lt-end"), d.clone()));
+        }
+        // A. the accepted request itself, against the record BEFORE it
+        if r.ok {
+            if let Some(g0) = &r.g0 {
+                match op {
+                    "upd_start" => {
+                        if now >= g0.start {
+                            return bad(op, "start-updated-after-start", format!("start {} had passed at {now}", g0.start));
+                        }
+                        if r.new_t < now {
+                            return bad(op, "start-moved-into-the-past", format!("new start {} < now {now}", r.new_t));
+                        }
+                    }
+                    "upd_end" => {
+                        match g0.end {
+                            Some(e) if now < e => {}
+                            _ => return bad(op, "end-updated-after-end", format!("end {:?} had passed (or was never set) at {now}", g0.end)),
+                        }
+                        if r.new_t < g0.start {
+                            return bad(op, "end-before-start", format!("new end {} < start {}", r.new_t, g0.start));
+                        }
+                        if r.new_t < now {
+                            return bad(op, "end-moved-into-the-past", format!("new end {} < now {now}", r.new_t));
+                        }
+                    }
+                    "set_wl" => {
+                        if now >= g0.start {
+                            return bad(op, "whitelist-attached-after-start", format!("start {} had passed at {now}", g0.start));
+                        }
+                        if r.act.is_some() {
+                            return bad(op, "whitelist-replaced-while-active", format!("current whitelist {:?} is active at {now}", g0.wl));
+                        }
+                        if r.act_new.is_some() {
+                            return bad(op, "active-whitelist-attached", format!("new whitelist is active at {now}"));
+                        }
+                    }
+                    _ => {}
                 }
             }
-            if let (Some(f), true) = (self.frozen_end, oe) {
-                if r.post.end != Some(f) {
-                    return bad(&r.op, "end-changed-after-end", format!("end was {f} and had passed, now {:?}", r.post.end));
-                }
-            }
-            if let Some(f) = self.frozen_wl {
-                if r.post.wl != f {
-                    return bad(&r.op, "whitelist-changed-after-start", format!("whitelist was {:?} when the mint started, now {:?}", f, r.post.wl));
-                }
-            }
-            // the op itself ran at `now`: freeze for later ops
-            if now >= r.post.start && self.frozen_start.is_none() {
-                self.frozen_start = Some(r.post.start);
-                self.frozen_wl = Some(r.post.wl);
-            }
-            if let Some(e) = r.post.end {
-                if now >= e && self.frozen_end.is_none() {
-                    self.frozen_end = Some(e);
+            if op == "create" {
+                if let Some(g1) = &r.g1 {
+                    if g1.wl.is_some() && r.act_new.is_some() {
+                        return bad(op, "active-whitelist-attached", format!("whitelist {:?} is active at {now}", g1.wl));
+                    }
+                    if g1.start < now {
+                        return bad(op, "start-in-the-past", format!("created with start {} < now {now}", g1.start));
+                    }
+                    if let Some(e) = g1.end {
+                        if e < g1.start {
+                            return bad(op, "end-before-start", format!("created with end {e} < start {}", g1.start));
+                        }
+                    }
                 }
             }
         }
-        // whatever the message was (also the ones this property does not name): a change of the schedule or of the
-        // attached whitelist must obey the rules
-        if r.pre.exists && r.post.exists {
-            if r.post.start != r.pre.start {
-                if now >= r.pre.start {
-                    return bad(&r.op, "start-updated-after-start", format!("start {} had passed at {now}, now {}", r.pre.start, r.post.start));
-                }
-                if r.post.start < now {
-                    return bad(&r.op, "start-moved-into-the-past", format!("new start {} < now {now}", r.post.start));
-                }
+        // B. whatever the message was (mints, failed messages, migrate, governance, variants this check has never heard of):
+        // what the minter now stores must be what the accepted requests imply
+        if let (Some(g1), true) = (&r.g1, r.post.exists) {
+            if r.post.start != g1.start {
+                let p = if r.ok && (op == "create" || op == "upd_start") {
+                    "start-not-stored"
+                } else if now >= g1.start {
+                    "start-changed-after-start"
+                } else {
+                    "start-changed-by-other-message"
+                };
+                return bad(op, p, format!("the accepted requests imply start {}, the minter stores {}", g1.start, r.post.start));
             }
-            if r.post.end != r.pre.end {
-                match r.pre.end {
-                    Some(e) if now < e => {}
-                    _ => return bad(&r.op, "end-updated-after-end", format!("end {:?} had passed (or was never set) at {now}, now {:?}", r.pre.end, r.post.end)),
-                }
-                match r.post.end {
-                    Some(n) if n >= r.post.start => {}
-                    _ => return bad(&r.op, "end-before-start", format!("new end {:?} vs start {}", r.post.end, r.post.start)),
-                }
+            if r.post.end != g1.end {
+                let p = if r.ok && (op == "create" || op == "upd_end") {
+                    "end-not-stored"
+                } else if g1.end.map_or(false, |e| now >= e) {
+                    "end-changed-after-end"
+                } else {
+                    "end-changed-by-other-message"
+                };
+                return bad(op, p, format!("the accepted requests imply end {:?}, the minter stores {:?}", g1.end, r.post.end));
             }
-            if r.post.wl != r.pre.wl {
-                if now >= r.pre.start {
-                    return bad(&r.op, "whitelist-attached-after-start", format!("start {} had passed at {now}", r.pre.start));
-                }
-                if r.pre.wl.and_then(|k| self.wls.get(&k)).and_then(|i| i.active_stage(now)).is_some() {
-                    return bad(&r.op, "whitelist-replaced-while-active", format!("current whitelist {:?} is active at {now}", r.pre.wl));
-                }
-                if r.post.wl.and_then(|k| self.wls.get(&k)).and_then(|i| i.active_stage(now)).is_some() {
-                    return bad(&r.op, "active-whitelist-attached", format!("new whitelist {:?} is active at {now}", r.post.wl));
+            if r.post.wl != g1.wl {
+                let p = if r.ok && (op == "create" || op == "set_wl") {
+                    "whitelist-not-stored"
+                } else if now >= g1.start {
+                    "whitelist-changed-after-start"
+                } else {
+                    "whitelist-changed-by-other-message"
+                };
+                return bad(op, p, format!("the accepted requests imply whitelist {:?}, the minter stores {:?}", g1.wl, r.post.wl));
+            }
+        }
+        // the window stays well-formed (Lean: C04_window_wellformed): whichever accepted update produced it, an end before the start
+        if let Some(g1) = &r.g1 {
+            if let Some(e) = g1.end {
+                if e < g1.start {
+                    return bad(op, "end-before-start", format!("the accepted requests leave end {e} < start {}", g1.start));
                 }
             }
         }
         if !r.ok {
             return None;
         }
-        let attached = r.pre.wl.and_then(|k| self.wls.get(&k));
-        let active = attached.and_then(|i| i.active_stage(now).map(|s| (i, s)));
-        match r.op.as_str() {
+        // C. accepted mints, against the record
+        let g0 = r.g0.clone()?;
+        let attached = g0.wl.and_then(|k| self.wls.get(&k).map(|i| (k, i)));
+        let active = attached.and_then(|(k, i)| r.act.map(|s| (k, i, s)));
+        match op {
             "mint" | "deposit" => {
                 if oe {
-                    if let Some(e) = r.pre.end {
+                    if let Some(e) = g0.end {
                         if now >= e {
-                            return bad(&r.op, "open-edition-mint-at-or-after-end", format!("mint succeeded at {now} >= end {e}"));
+                            return bad(op, "open-edition-mint-at-or-after-end", format!("mint succeeded at {now} >= end {e}"));
                         }
                     }
                 }
                 match active {
                     None => {
-                        if now < r.pre.start {
-                            return bad(&r.op, "public-mint-before-start", format!("public mint succeeded at {now} < start {}", r.pre.start));
+                        if now < g0.start {
+                            return bad(op, "public-mint-before-start", format!("public mint succeeded at {now} < start {}", g0.start));
                         }
-                        if r.op == "mint" {
+                        if op == "mint" {
+                            let pp = if g0.price_touched { r.pre.price } else { (g0.denom, g0.pub_price) };
                             let mut want = [0i128; 2];
-                            want[r.pre.price.0 as usize % 2] = r.pre.price.1 as i128;
+                            want[pp.0 as usize % 2] = pp.1 as i128;
                             if r.charged != want {
-                                return bad(&r.op, "public-price", format!("no active whitelist: charged {:?}, public price is {:?}", r.charged, r.pre.price));
+                                return bad(op, "public-price", format!("no active whitelist: charged {:?}, public price is {:?}", r.charged, pp));
                             }
                         }
                     }
-                    Some((info, si)) => {
-                        let st = &info.stages[si];
-                        let entitled = if is_merkle(info.kind) { r.proof_presented && st.leaves.contains(&r.leaf) } else { st.members.iter().any(|(a, _)| *a == r.sender) };
+                    Some((k, info, si)) => {
+                        let Some(st) = info.stages.get(si) else { return None };
+                        let entitled = if is_merkle(info.kind) {
+                            // only the sibling path the harness generated for THIS sender's own leaf in the tree in force counts
+                            let q: Vec<&str> = r.proof.split('.').collect();
+                            q.len() == 6
+                                && q[0] == "p"
+                                && q[1].parse::<u64>().ok() == Some(k)
+                                && q[2].parse::<usize>().ok() == Some(si)
+                                && (parse_ox(q[3]), q[4].parse::<u64>().unwrap_or(u64::MAX), parse_ox(q[5])) == r.leaf
+                                && r.leaf.1 == r.sender
+                                && st.leaves.contains(&r.leaf)
+                        } else {
+                            st.gmembers.contains(&r.sender)
+                        };
                         if !entitled {
-                            return bad(&r.op, "non-member-minted-during-active-whitelist", format!("sender {} is not entitled in stage {si} of whitelist {:?}", r.sender, r.pre.wl));
+                            return bad(op, "non-member-minted-during-active-whitelist", format!("sender {} (proof `{}`) is not entitled in stage {si} of whitelist {k}", r.sender, r.proof));
                         }
                         let mut want = [0i128; 2];
-                        want[info.denom as usize % 2] = st.price as i128;
+                        want[info.denom0 as usize % 2] = st.price0 as i128;
                         if r.charged != want {
-                            return bad(&r.op, "whitelist-price", format!("active whitelist: charged {:?}, whitelist price is {}:{}", r.charged, info.denom, st.price));
+                            return bad(op, "whitelist-price", format!("active whitelist: charged {:?}, whitelist price is {}:{}", r.charged, info.denom0, st.price0));
                         }
                     }
                 }
             }
-            "mint_to" => {
+            "mint_to" | "mint_for" => {
                 if oe {
-                    if let Some(e) = r.pre.end {
+                    if let Some(e) = g0.end {
                         if now >= e {
-                            return bad(&r.op, "open-edition-airdrop-at-or-after-end", format!("airdrop succeeded at {now} >= end {e}"));
+                            return bad(op, "open-edition-airdrop-at-or-after-end", format!("airdrop succeeded at {now} >= end {e}"));
                         }
-                    }
-                }
-            }
-            "upd_start" => {
-                if now >= r.pre.start {
-                    return bad(&r.op, "start-updated-after-start", format!("start {} had passed at {now}", r.pre.start));
-                }
-                if r.new_t < now {
-                    return bad(&r.op, "start-moved-into-the-past", format!("new start {} < now {now}", r.new_t));
-                }
-                if r.post.start != r.new_t {
-                    return bad(&r.op, "start-not-stored", format!("asked {}, stored {}", r.new_t, r.post.start));
-                }
-            }
-            "upd_end" => {
-                match r.pre.end {
-                    Some(e) if now < e => {}
-                    _ => return bad(&r.op, "end-updated-after-end", format!("end {:?} had passed (or was never set) at {now}", r.pre.end)),
-                }
-                if r.new_t < r.pre.start {
-                    return bad(&r.op, "end-before-start", format!("new end {} < start {}", r.new_t, r.pre.start));
-                }
-                if r.post.end != Some(r.new_t) {
-                    return bad(&r.op, "end-not-stored", format!("asked {}, stored {:?}", r.new_t, r.post.end));
-                }
-            }
-            "set_wl" | "create" => {
-                if r.op == "set_wl" {
-                    if now >= r.pre.start {
-                        return bad(&r.op, "whitelist-attached-after-start", format!("start {} had passed at {now}", r.pre.start));
-                    }
-                    if active.is_some() {
-                        return bad(&r.op, "whitelist-replaced-while-active", format!("current whitelist {:?} is active at {now}", r.pre.wl));
-                    }
-                }
-                if let Some(info) = r.post.wl.and_then(|k| self.wls.get(&k)) {
-                    if info.active_stage(now).is_some() {
-                        return bad(&r.op, "active-whitelist-attached", format!("new whitelist {:?} is active at {now}", r.post.wl));
                     }
                 }
             }
@@ -982,11 +1459,9 @@ impl Gen {
     }
 }
 
-/// funds string for what the real contract currently demands (generator convenience; not used by the monitors)
+/// what a buyer must pay now, from the harness's OWN record (created prices), not from the minter's `MintPrice` answer
 fn current_price(sut: &S) -> Option<(u64, u128)> {
-    let m = sut.minter.as_ref()?;
-    let v = sut.w.query(m, &json!({"mint_price":{}})).ok()?;
-    Some((denom_id(v["current_price"]["denom"].as_str()?), v["current_price"]["amount"].as_str()?.parse().ok()?))
+    sut.expected_price()
 }
 fn funds_str(p: Option<(u64, u128)>) -> String {
     match p {
@@ -1010,11 +1485,12 @@ fn mint_line(sut: &S, buyer: u64, funds: &str, mode: u64) -> String {
     let mut proof = "-".to_string();
     if let Some((k, i)) = info {
         if is_merkle(i.kind) && !i.stages.is_empty() {
-            let ti = i.active_stage(now).unwrap_or(0);
+            let _ = now;
+            let ti = sut.active_of(k).unwrap_or(0);
             let own = i.stages[ti].leaves.iter().find(|l| l.1 == buyer).cloned();
             let other = i.stages[ti].leaves.iter().find(|l| l.1 != buyer && l.1 < 9000).cloned();
             let enc = |t: usize, l: &LeafT| format!("p.{k}.{t}.{}.{}.{}", ox(&l.0), l.1, ox(&l.2));
-            match mode % 10 {
+            match mode % 12 {
                 0 | 1 | 2 => {
                     if let Some(l) = own.clone().or(other.clone()) {
                         // own leaf with own proof; an outsider presents someone else's proof and claims that leaf's stage/allocation
@@ -1050,7 +1526,14 @@ fn mint_line(sut: &S, buyer: u64, funds: &str, mode: u64) -> String {
                         proof = enc(tj, &l);
                     }
                 }
-                6 => proof = "j".into(),
+                6 | 10 => {
+                    // the claimed leaf IS committed (own stage / allocation) but the path is junk (6) or empty (10)
+                    if let Some(l) = own {
+                        stage = fmt_opt(&l.0);
+                        alloc = fmt_opt(&l.2);
+                    }
+                    proof = if mode % 12 == 6 { "j".into() } else { "e".into() };
+                }
                 8 => {
                     // a genuine path out of ANOTHER whitelist's tree (same buyer)
                     if let Some((k2, i2)) = sut.wls.iter().find(|(k2, i2)| **k2 != k && is_merkle(i2.kind) && !i2.stages.is_empty()) {
@@ -1068,7 +1551,7 @@ fn mint_line(sut: &S, buyer: u64, funds: &str, mode: u64) -> String {
                     alloc = fmt_opt(&l.2);
                     proof = enc(ti, &l);
                 }
-                _ => proof = if mode % 20 == 7 { "b".into() } else { "-".into() },
+                _ => proof = if mode % 24 == 7 { "b".into() } else { "-".into() },
             }
         } else if mode % 4 == 3 {
             proof = "j".into();
@@ -1088,19 +1571,60 @@ fn rel(now: u64, t: u64) -> &'static str {
     }
 }
 
+/// exact position relative to a boundary: one nanosecond before / at / one nanosecond after (else far)
+fn rel3(now: u64, t: u64) -> Option<&'static str> {
+    if now + 1 == t {
+        Some("m1")
+    } else if now == t {
+        Some("0")
+    } else if now == t + 1 {
+        Some("p1")
+    } else {
+        None
+    }
+}
+
 fn classify(ses: &mut Session, sut: &S, line: &str, out: &str) {
-    let s = sut.snap();
     let op = line.split_whitespace().next().unwrap_or("?");
+    if matches!(op, "wl" | "wl_time" | "wl_stage" | "wl_add" | "wl_rm" | "t") {
+        ses.mark(format!("v{}:{}:{}", sut.vidx, op, out.split_whitespace().next().unwrap_or("?")));
+        return;
+    }
+    // classes are keyed on the harness's own record (ghost), not on the minter's answers
+    let now = sut.w.time();
+    let g = sut.ghost.clone();
     let okk = out.split_whitespace().next().unwrap_or("?");
-    let wl = s.wl.and_then(|k| sut.wls.get(&k));
+    let wlk = g.as_ref().and_then(|g| g.wl);
+    let wl = wlk.and_then(|k| sut.wls.get(&k));
     let wk = wl.map(|i| wl_kind_idx(i.kind) as i64).unwrap_or(-1);
-    let act = wl.map(|i| i.active_stage(s.now).map(|x| x as i64 + 1).unwrap_or(0)).unwrap_or(-1);
-    let e = s.end.map(|e| rel(s.now, e)).unwrap_or("na");
+    let act = wlk.map(|k| sut.active_of(k).map(|x| x as i64 + 1).unwrap_or(0)).unwrap_or(-1);
+    let e = g.as_ref().and_then(|g| g.end).map(|e| rel(now, e)).unwrap_or("na");
     let pf = kv(line, "proof").map(|p| &p[..1]).unwrap_or("n");
+    let what = if op == "menv" { format!("menv.{}", kv(line, "what").unwrap_or("?").split('.').next().unwrap_or("?")) } else { op.to_string() };
     if op == "mint" && act > 0 {
         ses.count(&format!("wlmint:v{}:wl{}:{}", sut.vidx, wk, okk));
     }
-    ses.mark(format!("v{}:wl{}:{}:{}:start-{}:end-{}:act{}:pf{}", sut.vidx, wk, op, okk, if s.exists { rel(s.now, s.start) } else { "na" }, e, act, pf));
+    ses.mark(format!("v{}:wl{}:{}:{}:start-{}:end-{}:act{}:pf{}", sut.vidx, wk, what, okk, g.as_ref().map(|g| rel(now, g.start)).unwrap_or("na"), e, act, pf));
+    // exact boundary instants (−1 ns / 0 / +1 ns) of the mint start, the mint end and every edge of the attached whitelist
+    if let Some(g) = &g {
+        let mode = if act > 0 { "wl" } else { "pub" };
+        if let Some(r) = rel3(now, g.start) {
+            ses.mark(format!("bd:v{}:{}:{}:start:{}:{}", sut.vidx, what, mode, r, okk));
+        }
+        if let Some(r) = g.end.and_then(|e| rel3(now, e)) {
+            ses.mark(format!("bd:v{}:{}:{}:end:{}:{}", sut.vidx, what, mode, r, okk));
+        }
+        if let Some(i) = wl {
+            for (si, st) in i.stages.iter().enumerate() {
+                if let Some(r) = rel3(now, st.start) {
+                    ses.mark(format!("bd:v{}:wl{}:{}:stage{}-start:{}:{}", sut.vidx, wk, what, si, r, okk));
+                }
+                if let Some(r) = rel3(now, st.end) {
+                    ses.mark(format!("bd:v{}:wl{}:{}:stage{}-end:{}:{}", sut.vidx, wk, what, si, r, okk));
+                }
+            }
+        }
+    }
 }
 
 fn do_step(ses: &mut Session, sut: &mut S, line: &str) -> String {
@@ -1132,15 +1656,15 @@ fn battery(ses: &mut Session, sut: &mut S, g: &mut Gen, heavy: bool) {
         // an entitled buyer of the stage in force when there is one (ground truth), else any listed buyer
         let entitled: Vec<u64> = snap
             .wl
-            .and_then(|k| sut.wls.get(&k))
-            .and_then(|i| i.active_stage(snap.now).map(|si| if is_merkle(i.kind) { i.stages[si].leaves.iter().map(|l| l.1).filter(|a| *a < 9000).collect() } else { i.stages[si].members.iter().map(|m| m.0).collect() }))
+            .and_then(|k| sut.active_of(k).and_then(|si| sut.wls.get(&k).map(|i| (i, si))))
+            .map(|(i, si)| if is_merkle(i.kind) { i.stages[si].leaves.iter().map(|l| l.1).filter(|a| *a < 9000).collect() } else { i.stages[si].gmembers.iter().cloned().filter(|a| *a < 100).collect() })
             .unwrap_or_default();
         let m = if entitled.is_empty() || g.rng.chance(1, 5) { g.buyer(&MEMBERS) } else { g.buyer(&entitled) };
         let mode = g.rng.below(3);
         let l = mint_line(sut, m, &funds_str(cur), mode);
         do_step(ses, sut, &l);
         let o = g.buyer(&OUTSIDERS);
-        let mode = g.rng.below(20);
+        let mode = g.rng.below(24);
         let l = mint_line(sut, o, &funds_str(cur), mode);
         do_step(ses, sut, &l);
         if heavy {
@@ -1149,8 +1673,8 @@ fn battery(ses: &mut Session, sut: &mut S, g: &mut Gen, heavy: bool) {
                 let att = snap.wl.and_then(|k| sut.wls.get(&k));
                 match (att, cur) {
                     (Some(i), Some(c)) if !i.stages.is_empty() => {
-                        let si = i.active_stage(snap.now).unwrap_or(0);
-                        let wlp = (i.denom, i.stages[si].price);
+                        let si = snap.wl.and_then(|k| sut.active_of(k)).unwrap_or(0).min(i.stages.len() - 1);
+                        let wlp = (i.denom0, i.stages[si].price0);
                         Some(if c == wlp { snap.price } else { wlp })
                     }
                     (_, Some(c)) => Some((c.0, c.1 + 1)),
@@ -1168,7 +1692,7 @@ fn battery(ses: &mut Session, sut: &mut S, g: &mut Gen, heavy: bool) {
             }
             if sut.kind.is_merkle() {
                 let m3 = g.buyer(&MEMBERS);
-                let mode = 3 + g.rng.below(17);
+                let mode = 3 + g.rng.below(21);
                 let l = mint_line(sut, m3, &funds_str(cur), mode);
                 do_step(ses, sut, &l);
             }
@@ -1216,6 +1740,47 @@ fn header(v: usize, now: u64, denom: u64, minp: u128, airp: u128, maxtok: u64) -
     format!("case v={v} now={now} denom={denom} minp={minp} airp={airp} maxtok={maxtok}")
 }
 
+/// migrate (old / same / newer cw2 version), `MintFor`, factory governance: none of them may move the schedule
+fn extra_surface(ses: &mut Session, sut: &mut S, g: &mut Gen) {
+    match g.rng.below(4) {
+        0 => {
+            let ver = *g.rng.pick(&["same", "0.1.0", "2.99.99", "3.8.9", "99.0.0"]);
+            let who = if g.rng.chance(1, 8) { 24 } else { ADMIN };
+            do_step(ses, sut, &format!("menv what=migrate ver={ver} arg=0 sender={who}"));
+        }
+        1 => {
+            let who = if g.rng.chance(1, 8) { 24 } else { ADMIN };
+            let tok = *g.rng.pick(&[0u64, 1, 2, 7, 399, 400, 401]);
+            let af = if sut.airp == 0 { "-".to_string() } else { format!("{}:{}", sut.denom, sut.airp) };
+            do_step(ses, sut, &format!("mint_for sender={who} rcpt={} token={tok} funds={af}", g.buyer(&OUTSIDERS)));
+        }
+        _ => {
+            let minp = *g.rng.pick(&[50_000_000u128, 40_000_000, 60_000_500, 70_000_000]);
+            let airp = *g.rng.pick(&[0u128, 3_000_000, 7_000_000]);
+            do_step(ses, sut, &format!("fsudo minp={minp} airp={airp}"));
+        }
+    }
+}
+
+/// every `ExecuteMsg` / `SudoMsg` variant found in the crates' schemas at RUN TIME that this check has no op for is sent as
+/// raw JSON (minimal arguments built from the schema) by the admin and by a stranger, under all monitors: afterwards the
+/// minter must still store the schedule the accepted requests imply. On the unchanged tree there is none.
+fn unknown_surface(ses: &mut Session, sut: &mut S) {
+    if sut.minter.is_none() {
+        return;
+    }
+    for v in unknown_exec(sut.kind) {
+        ses.mark(format!("surface:v{}:unknown-execute:{v}", sut.vidx));
+        for who in [ADMIN, 24] {
+            do_step(ses, sut, &format!("menv what=x.{v} arg=0 sender={who}"));
+        }
+    }
+    for v in unknown_sudo() {
+        ses.mark(format!("surface:v{}:unknown-sudo:{v}", sut.vidx));
+        do_step(ses, sut, &format!("menv what=s.{v} arg=0 sender={ADMIN}"));
+    }
+}
+
 /// sweep: one minter × one whitelist kind × one window shape; the clock visits t-1, t, t+1 of every instant in order
 fn sweep_case(ses: &mut Session, sut: &mut S, g: &mut Gen, v: usize, wk: WlKind, shape: u64, heavy: bool) {
     let kind = variant_kind(v);
@@ -1226,7 +1791,7 @@ fn sweep_case(ses: &mut Session, sut: &mut S, g: &mut Gen, v: usize, wk: WlKind,
     // an uncapped open edition needs an end time and a non-zero airdrop price
     let uncapped = kind.is_open_edition() && shape % 5 != 4 && g.rng.chance(1, 3);
     let airp: u128 = if uncapped || g.rng.chance(1, 4) { 7_000_000 } else { 0 };
-    ses.begin_case(sut, &format!("{} sweep wk={} shape={}", header(v, t0, denom, minp, airp, 60), wl_kind_idx(wk), shape));
+    ses.begin_case(sut, &format!("{} sweep wk={} shape={}", header(v, t0, denom, minp, airp, 500), wl_kind_idx(wk), shape));
     let wins = windows(shape, s);
     let wl_denom = if g.rng.chance(1, 12) { 1 - denom } else { denom };
     let l1 = wl_line(1, wk, wl_denom, &wins, 60_000_000, &mut g.rng);
@@ -1237,7 +1802,8 @@ fn sweep_case(ses: &mut Session, sut: &mut S, g: &mut Gen, v: usize, wk: WlKind,
     do_step(ses, sut, &l2);
     let oe = kind.is_open_edition();
     let end = if oe && shape % 5 != 4 { format!("{}", s + 700 + (shape % 3) * 100) } else { "-".into() };
-    let ntok = if uncapped { "-".to_string() } else { "60".to_string() };
+    // supply large enough that no sweep sells out before the last boundary (review item 1)
+    let ntok = if uncapped { "-".to_string() } else { "400".to_string() };
     let attach_at_create = g.rng.chance(2, 3) && kind != MinterKind::TokenMerge;
     let price = if kind == MinterKind::TokenMerge { 0 } else { 100_000_000u128 + g.rng.below(5) as u128 };
     let limit = 1 + g.rng.below(3);
@@ -1251,6 +1817,7 @@ fn sweep_case(ses: &mut Session, sut: &mut S, g: &mut Gen, v: usize, wk: WlKind,
     if !attach_at_create && kind != MinterKind::TokenMerge {
         do_step(ses, sut, &format!("set_wl sender={ADMIN} wl=1"));
     }
+    unknown_surface(ses, sut);
     // the sweep
     let mut points: Vec<u64> = vec![];
     for t in interesting_instants(sut) {
@@ -1293,7 +1860,12 @@ fn sweep_case(ses: &mut Session, sut: &mut S, g: &mut Gen, v: usize, wk: WlKind,
             };
             do_step(ses, sut, &format!("menv what={what} arg={arg} sender={ADMIN}"));
         }
+        if g.rng.chance(1, 10) {
+            extra_surface(ses, sut, g);
+        }
     }
+    // every variant the schemas list that this check has no op for, after everything has started / ended
+    unknown_surface(ses, sut);
     // everything is over: purge (anyone may), shuffle, burn the rest — still no schedule change
     for what in ["purge", "shuffle", "burn", "purge"] {
         do_step(ses, sut, &format!("menv what={what} arg=0 sender={}", if what == "purge" { 25 } else { ADMIN }));
@@ -1372,7 +1944,8 @@ fn random_case(ses: &mut Session, sut: &mut S, g: &mut Gen, v: usize, steps: u64
         let snap = sut.snap();
         let now = snap.now;
         let inst = interesting_instants(sut);
-        match g.rng.below(14) {
+        match g.rng.below(15) {
+            12 => extra_surface(ses, sut, g),
             0 | 1 | 2 => {
                 // clock: next boundary-ish instant, or a jump
                 let mut cands: Vec<u64> = inst.iter().flat_map(|t| [t.saturating_sub(1), *t, t + 1]).filter(|t| *t > now).collect();
@@ -1552,6 +2125,482 @@ fn create_boundary_case(ses: &mut Session, sut: &mut S, g: &mut Gen, v: usize, w
     ses.end_case();
 }
 
+// ------------------------------------------------------------------------------------------------ floor cases (deterministic)
+
+/// fresh buyers: every probe of a floor case uses an address that has never minted (no per-address limit can interfere)
+struct Fresh {
+    m: u64,
+    o: u64,
+}
+const FM0: u64 = 40; // fresh members 40..90 (on the whitelists), fresh outsiders 90..140 (on none)
+const FM1: u64 = 90;
+impl Fresh {
+    fn new() -> Fresh {
+        Fresh { m: FM0, o: FM1 }
+    }
+    /// a fresh member of stage `si` of `n` stages (members are dealt to the stages round-robin by id)
+    fn member(&mut self, si: usize, n: usize) -> u64 {
+        loop {
+            let c = self.m;
+            self.m += 1;
+            assert!(c < FM1, "floor case ran out of fresh members");
+            if (c as usize) % n.max(1) == si {
+                return c;
+            }
+        }
+    }
+    fn outsider(&mut self) -> u64 {
+        let c = self.o;
+        self.o += 1;
+        assert!(c < 140, "floor case ran out of fresh outsiders");
+        c
+    }
+}
+fn okerr(out: &str) -> &'static str {
+    if out.starts_with("ok") {
+        "ok"
+    } else {
+        "err"
+    }
+}
+fn fl(ses: &mut Session, sut: &S, tag: &str, what: &str, out: &str) {
+    ses.mark(format!("fl:v{}:{}:{}:{}", sut.vidx, tag, what, okerr(out)));
+}
+/// whitelist for a floor case: every stage lists MEMBERS and its share of the fresh members; `big`: stage 0 of a list kind
+/// also holds 120 filler members and `BIG`, whose address sorts after all of them (position > 100: beyond every page)
+fn floor_wl_line(k: u64, kind: WlKind, wins: &[(u64, u64)], base_price: u128, big: bool) -> String {
+    if kind == WlKind::Immutable {
+        return format!("wl k={k} kind={} denom=0 st=- mem=- lv=-", wl_kind_idx(kind));
+    }
+    let n = if is_tiered(kind) { wins.len().min(3) } else { 1 };
+    let (mut st, mut mem, mut lv) = (vec![], vec![], vec![]);
+    for i in 0..n {
+        let (a, b) = wins[i];
+        let per = if is_flex(kind) { 0 } else { 2 };
+        st.push(format!("{a}:{b}:{}:{per}:x", base_price + 1000 * i as u128));
+        let mut ms: Vec<u64> = MEMBERS.to_vec();
+        ms.extend((FM0..FM1).filter(|m| (*m as usize) % n == i));
+        if big && i == 0 && !is_merkle(kind) {
+            ms.extend(FILLER0..FILLER0 + NFILL);
+            ms.push(BIG);
+        }
+        if is_merkle(kind) {
+            let mut leaves: Vec<String> = vec![format!("x:{}:x", 9000 + 10 * k + i as u64)];
+            leaves.extend(ms.iter().map(|m| format!("x:{m}:x")));
+            lv.push(leaves.join(","));
+            mem.push("-".to_string());
+        } else {
+            mem.push(ms.iter().map(|m| format!("{m}:{}", if is_flex(kind) { 2 } else { 0 })).collect::<Vec<_>>().join(","));
+            lv.push("-".to_string());
+        }
+    }
+    format!("wl k={k} kind={} denom=0 st={} mem={} lv={}", wl_kind_idx(kind), st.join(";"), mem.join(";"), lv.join(";"))
+}
+/// a mint by `buyer` paying what the harness's own record says is due now (Merkle minters: with the path of the buyer's own
+/// leaf in the tree in force, an outsider with somebody else's path)
+fn probe_mint(ses: &mut Session, sut: &mut S, buyer: u64) -> String {
+    let f = funds_str(current_price(sut));
+    let l = mint_line(sut, buyer, &f, 0);
+    do_step(ses, sut, &l)
+}
+/// a token id the COLLECTION does not know yet (generator convenience for `MintFor`)
+fn free_token(sut: &S) -> u64 {
+    let Some(c) = &sut.coll else { return 1 };
+    for t in 1..=400u64 {
+        if sut.w.query(c, &json!({"owner_of": {"token_id": t.to_string()}})).is_err() {
+            return t;
+        }
+    }
+    1
+}
+fn airdrop_funds(sut: &S) -> String {
+    if sut.airp == 0 {
+        "-".to_string()
+    } else {
+        format!("{}:{}", sut.denom, sut.airp)
+    }
+}
+const TRIPLE: [(i64, &str); 3] = [(-1, "m1"), (0, "0"), (1, "p1")];
+fn at(t: u64, d: i64) -> u64 {
+    (t as i64 + d) as u64
+}
+fn compat_kinds(v: usize) -> Vec<WlKind> {
+    if v == 9 {
+        vec![WlKind::Plain]
+    } else if variant_kind(v).is_flex() {
+        vec![WlKind::Flex, WlKind::TieredFlex]
+    } else if variant_kind(v).is_merkle() {
+        vec![WlKind::Merkle, WlKind::TieredMerkle]
+    } else {
+        vec![WlKind::Plain, WlKind::Tiered]
+    }
+}
+
+/// Floor case: the boundary triples (−1 ns / 0 / +1 ns) of the whitelist start, the stage hand-over, the whitelist end, the
+/// mint start and the open-edition end, each probed by a FRESH buyer paying the price the harness's own record demands, with a
+/// supply of 400. Layout A: whitelist window entirely before the start. Layout B: the window straddles the start and outlives
+/// the open-edition end. Every decisive outcome is marked `fl:v<v>:<layout><whitelist kind>:…` and REQUIRED by `main`.
+fn floor_case(ses: &mut Session, sut: &mut S, v: usize, wk: WlKind, overlap: bool) {
+    let kind = variant_kind(v);
+    let oe = kind.is_open_edition();
+    let tm = kind == MinterKind::TokenMerge;
+    let t0 = GENESIS + 10_000_000;
+    let s = t0 + 10_000;
+    let e = s + 4_000;
+    let airp: u128 = if oe { 5_000_000 } else { 0 };
+    let tag = format!("{}{}", if overlap { "B" } else { "A" }, wl_kind_idx(wk));
+    ses.begin_case(sut, &format!("{} floor lay={tag}", header(v, t0, 0, 50_000_000, airp, 500)));
+    let tiered = is_tiered(wk);
+    let wins: Vec<(u64, u64)> = match (overlap, tiered) {
+        (true, true) => vec![(s - 1000, s + 500), (s + 500, e + 300)],
+        (true, false) => vec![(s - 1000, e + 300)],
+        (false, true) => vec![(s - 3000, s - 2500), (s - 2500, s - 2000)],
+        (false, false) => vec![(s - 3000, s - 2000)],
+    };
+    let n = if tiered { wins.len() } else { 1 };
+    let li = n - 1;
+    let mut fr = Fresh::new();
+    if !tm {
+        let wins2: Vec<(u64, u64)> = wins.iter().map(|(a, b)| (a + 10, b - 10)).collect();
+        do_step(ses, sut, &floor_wl_line(1, wk, &wins, 60_000_000, true));
+        do_step(ses, sut, &floor_wl_line(2, wk, &wins2, 61_000_000, false));
+    }
+    let end = if oe { e.to_string() } else { "-".into() };
+    let price = if tm { 0 } else { 100_000_000u128 };
+    let out = do_step(ses, sut, &format!("create sender={ADMIN} start={s} end={end} wl={} price={price} limit=3 ntok=400", if tm { "-" } else { "1" }));
+    fl(ses, sut, &tag, "create", &out);
+    if tm {
+        for (d, r) in TRIPLE {
+            do_step(ses, sut, &format!("t now={}", at(s, d)));
+            let b = fr.outsider();
+            let out = do_step(ses, sut, &format!("deposit sender={b} rcpt=-"));
+            fl(ses, sut, &tag, &format!("deposit:start:{r}"), &out);
+            let out = do_step(ses, sut, &format!("upd_start sender={ADMIN} t={}", if d < 0 { s } else { s + 10 }));
+            fl(ses, sut, &tag, &format!("upd_start:start:{r}"), &out);
+            let out = do_step(ses, sut, &format!("mint_to sender={ADMIN} rcpt={} funds=-", fr.outsider()));
+            fl(ses, sut, &tag, &format!("mint_to:start:{r}"), &out);
+            if d == -1 {
+                let out = do_step(ses, sut, &format!("menv what=migrate ver=0.1.0 arg=0 sender={ADMIN}"));
+                fl(ses, sut, &tag, "migrate:before-start", &out_ok(sut, &out));
+            }
+            if d == 0 {
+                let out = do_step(ses, sut, &format!("mint_for sender={ADMIN} rcpt={} token={} funds=-", fr.outsider(), free_token(sut)));
+                fl(ses, sut, &tag, "mint_for:start:0", &out);
+            }
+        }
+        let out = do_step(ses, sut, &format!("menv what=migrate ver=same arg=0 sender={ADMIN}"));
+        fl(ses, sut, &tag, "migrate:after-start", &out_ok(sut, &out));
+        do_step(ses, sut, "fsudo minp=50000000 airp=3000000");
+        unknown_surface(ses, sut);
+        ses.end_case();
+        return;
+    }
+    let list_kind = !is_merkle(wk);
+    if !overlap {
+        // ---- whitelist start
+        for (d, r) in TRIPLE {
+            do_step(ses, sut, &format!("t now={}", at(wins[0].0, d)));
+            let m = fr.member(0, n);
+            let out = probe_mint(ses, sut, m);
+            fl(ses, sut, &tag, &format!("mint:member:wls:{r}"), &out);
+            if d == -1 {
+                let out = do_step(ses, sut, &format!("set_wl sender={ADMIN} wl=2"));
+                fl(ses, sut, &tag, "set_wl:wls:m1", &out);
+                do_step(ses, sut, &format!("set_wl sender={ADMIN} wl=1"));
+            }
+            if d == 0 {
+                let o = fr.outsider();
+                let out = probe_mint(ses, sut, o);
+                fl(ses, sut, &tag, "mint:outsider:wlactive", &out);
+                let m2 = fr.member(0, n);
+                let l = mint_line(sut, m2, "0:100000000", 0);
+                let out = do_step(ses, sut, &l);
+                fl(ses, sut, &tag, "mint:member-pubprice:wlactive", &out);
+                if list_kind {
+                    let out = probe_mint(ses, sut, BIG);
+                    fl(ses, sut, &tag, "mint:member101:wlactive", &out);
+                }
+                let out = do_step(ses, sut, &format!("set_wl sender={ADMIN} wl=2"));
+                fl(ses, sut, &tag, "set_wl:wls:0", &out);
+                let out = do_step(ses, sut, &format!("upd_start sender={ADMIN} t={s}"));
+                fl(ses, sut, &tag, "upd_start:wlactive", &out);
+            }
+        }
+        // ---- stage hand-over (touching stages; which one wins is the whitelist's business — no requirement, monitors only)
+        if tiered {
+            for (d, r) in TRIPLE {
+                do_step(ses, sut, &format!("t now={}", at(wins[0].1, d)));
+                let m0 = fr.member(0, n);
+                let out = probe_mint(ses, sut, m0);
+                fl(ses, sut, &tag, &format!("mint:stage0-member:handover:{r}"), &out);
+                let m1 = fr.member(1, n);
+                let out = probe_mint(ses, sut, m1);
+                fl(ses, sut, &tag, &format!("mint:stage1-member:handover:{r}"), &out);
+            }
+        }
+        // ---- whitelist end
+        for (d, r) in TRIPLE {
+            do_step(ses, sut, &format!("t now={}", at(wins[li].1, d)));
+            let m = fr.member(li, n);
+            let out = probe_mint(ses, sut, m);
+            fl(ses, sut, &tag, &format!("mint:member:wle:{r}"), &out);
+        }
+    } else {
+        do_step(ses, sut, &format!("t now={}", wins[0].0));
+        let m = fr.member(0, n);
+        let out = probe_mint(ses, sut, m);
+        fl(ses, sut, &tag, "mint:member:wls:0", &out);
+    }
+    // ---- mint start (layout B: while the whitelist is active)
+    for (d, r) in TRIPLE {
+        do_step(ses, sut, &format!("t now={}", at(s, d)));
+        if overlap {
+            let m = fr.member(0, n);
+            let out = probe_mint(ses, sut, m);
+            fl(ses, sut, &tag, &format!("mint:wl:start:{r}"), &out);
+            let o = fr.outsider();
+            let out = probe_mint(ses, sut, o);
+            fl(ses, sut, &tag, &format!("mint:outsider:start:{r}"), &out);
+        } else {
+            let o = fr.outsider();
+            let out = probe_mint(ses, sut, o);
+            fl(ses, sut, &tag, &format!("mint:pub:start:{r}"), &out);
+        }
+        let out = do_step(ses, sut, &format!("upd_start sender={ADMIN} t={}", if d < 0 { s } else { s + 10 }));
+        fl(ses, sut, &tag, &format!("upd_start:start:{r}"), &out);
+        let out = do_step(ses, sut, &format!("set_wl sender={ADMIN} wl=2"));
+        fl(ses, sut, &tag, &format!("set_wl:start:{r}"), &out);
+        if out.starts_with("ok") {
+            do_step(ses, sut, &format!("set_wl sender={ADMIN} wl=1"));
+        }
+        let out = do_step(ses, sut, &format!("mint_to sender={ADMIN} rcpt={} funds={}", fr.outsider(), airdrop_funds(sut)));
+        fl(ses, sut, &tag, &format!("mint_to:start:{r}"), &out);
+        if d == -1 {
+            let out = do_step(ses, sut, &format!("menv what=migrate ver=0.1.0 arg=0 sender={ADMIN}"));
+            fl(ses, sut, &tag, "migrate:before-start", &out_ok(sut, &out));
+        }
+        if d == 0 {
+            let out = do_step(ses, sut, &format!("mint_for sender={ADMIN} rcpt={} token={} funds={}", fr.outsider(), free_token(sut), airdrop_funds(sut)));
+            fl(ses, sut, &tag, "mint_for:start:0", &out);
+        }
+    }
+    // ---- the end instant (open edition: the gate; vending: nothing happens there)
+    for (d, r) in TRIPLE {
+        do_step(ses, sut, &format!("t now={}", at(e, d)));
+        if overlap {
+            let m = fr.member(li, n);
+            let out = probe_mint(ses, sut, m);
+            fl(ses, sut, &tag, &format!("mint:wl:end:{r}"), &out);
+        } else {
+            let o = fr.outsider();
+            let out = probe_mint(ses, sut, o);
+            fl(ses, sut, &tag, &format!("mint:pub:end:{r}"), &out);
+        }
+        let out = do_step(ses, sut, &format!("mint_to sender={ADMIN} rcpt={} funds={}", fr.outsider(), airdrop_funds(sut)));
+        fl(ses, sut, &tag, &format!("mint_to:end:{r}"), &out);
+        let out = do_step(ses, sut, &format!("upd_end sender={ADMIN} t={}", if d < 0 { e } else { e + 10 }));
+        fl(ses, sut, &tag, &format!("upd_end:end:{r}"), &out);
+    }
+    let out = do_step(ses, sut, &format!("menv what=migrate ver=same arg=0 sender={ADMIN}"));
+    fl(ses, sut, &tag, "migrate:after-start", &out_ok(sut, &out));
+    do_step(ses, sut, &format!("menv what=migrate ver=99.0.0 arg=0 sender={ADMIN}"));
+    do_step(ses, sut, "fsudo minp=50000000 airp=3000000");
+    do_step(ses, sut, &format!("mint_to sender={ADMIN} rcpt={} funds={}", fr.outsider(), airdrop_funds(sut)));
+    unknown_surface(ses, sut);
+    ses.end_case();
+}
+/// did the last `menv` message go through? (its protocol answer is `env …` either way; the monitor record knows)
+fn out_ok(sut: &S, _out: &str) -> String {
+    if sut.last.as_ref().map_or(false, |r| r.ok) {
+        "ok".into()
+    } else {
+        "err".into()
+    }
+}
+
+/// an update BETWEEN two calls in the same block: `UpdateStartTime(now)` opens the sale at once, `UpdateEndTime(now)` closes
+/// an open edition at once; both are final afterwards
+fn seq_case(ses: &mut Session, sut: &mut S, v: usize) {
+    let kind = variant_kind(v);
+    let oe = kind.is_open_edition();
+    let tm = kind == MinterKind::TokenMerge;
+    let t0 = GENESIS + 20_000_000;
+    let s = t0 + 5_000;
+    let e = s + 3_000;
+    let tag = "seq";
+    ses.begin_case(sut, &format!("{} floor seq", header(v, t0, 0, 50_000_000, if oe { 5_000_000 } else { 0 }, 500)));
+    let mut fr = Fresh::new();
+    let end = if oe { e.to_string() } else { "-".into() };
+    do_step(ses, sut, &format!("create sender={ADMIN} start={s} end={end} wl=- price={} limit=3 ntok=400", if tm { 0 } else { 100_000_000u128 }));
+    let now = t0 + 100;
+    do_step(ses, sut, &format!("t now={now}"));
+    let b = fr.outsider();
+    let buy = |ses: &mut Session, sut: &mut S, b: u64| -> String {
+        if tm {
+            do_step(ses, sut, &format!("deposit sender={b} rcpt=-"))
+        } else {
+            probe_mint(ses, sut, b)
+        }
+    };
+    let out = buy(ses, sut, b);
+    fl(ses, sut, tag, "mint-before", &out);
+    let out = do_step(ses, sut, &format!("upd_start sender={ADMIN} t={now}"));
+    fl(ses, sut, tag, "upd_start-now", &out);
+    let out = buy(ses, sut, b);
+    fl(ses, sut, tag, "mint-after-upd_start-now", &out);
+    let out = do_step(ses, sut, &format!("upd_start sender={ADMIN} t={}", now + 5));
+    fl(ses, sut, tag, "upd_start-after-start", &out);
+    if tm {
+        do_step(ses, sut, &format!("t now={}", now + 1));
+        let out = buy(ses, sut, b);
+        fl(ses, sut, tag, "deposit-next-ns", &out);
+    }
+    if oe {
+        let now = t0 + 200;
+        do_step(ses, sut, &format!("t now={now}"));
+        let b2 = fr.outsider();
+        let out = buy(ses, sut, b2);
+        fl(ses, sut, tag, "mint-before-upd_end", &out);
+        let out = do_step(ses, sut, &format!("upd_end sender={ADMIN} t={now}"));
+        fl(ses, sut, tag, "upd_end-now", &out);
+        let out = buy(ses, sut, b2);
+        fl(ses, sut, tag, "mint-after-upd_end-now", &out);
+        let out = do_step(ses, sut, &format!("mint_to sender={ADMIN} rcpt={} funds={}", fr.outsider(), airdrop_funds(sut)));
+        fl(ses, sut, tag, "mint_to-after-upd_end-now", &out);
+        let out = do_step(ses, sut, &format!("upd_end sender={ADMIN} t={}", now + 50));
+        fl(ses, sut, tag, "upd_end-after-end", &out);
+    }
+    ses.end_case();
+}
+
+/// replay of `C04_attach_before_start_counterexample` on the real minters: creation with `start_time = now` and a whitelist
+/// (vending family: accepted — the whitelist is attached AT the start instant; open edition: refused, `start > now` needed)
+fn attach_case(ses: &mut Session, sut: &mut S, v: usize) {
+    let kind = variant_kind(v);
+    let oe = kind.is_open_edition();
+    let t0 = GENESIS + 30_000_000;
+    let tag = "attach";
+    ses.begin_case(sut, &format!("{} floor attach", header(v, t0, 0, 50_000_000, if oe { 5_000_000 } else { 0 }, 500)));
+    let wk = compat_kinds(v)[0];
+    let mut fr = Fresh::new();
+    do_step(ses, sut, &floor_wl_line(1, wk, &[(t0 + 1000, t0 + 2000)], 60_000_000, false));
+    do_step(ses, sut, &floor_wl_line(2, wk, &[(t0 + 1010, t0 + 1990)], 61_000_000, false));
+    let end = if oe { (t0 + 3000).to_string() } else { "-".into() };
+    let out = do_step(ses, sut, &format!("create sender={ADMIN} start={t0} end={end} wl=1 price=100000000 limit=3 ntok=400"));
+    fl(ses, sut, tag, "create:wl:start-eq-now", &out);
+    if !out.starts_with("ok") {
+        let out = do_step(ses, sut, &format!("create sender={ADMIN} start={} end={end} wl=1 price=100000000 limit=3 ntok=400", t0 + 1));
+        fl(ses, sut, tag, "create:wl:start-eq-now-plus-1", &out);
+    }
+    let out = do_step(ses, sut, &format!("set_wl sender={ADMIN} wl=2"));
+    fl(ses, sut, tag, "set_wl-right-after-create", &out);
+    let o = fr.outsider();
+    let out = probe_mint(ses, sut, o);
+    fl(ses, sut, tag, "mint-right-after-create", &out);
+    // later the whitelist opens although the public sale is running: whitelist rules take over (property: "while active …")
+    do_step(ses, sut, &format!("t now={}", t0 + 1500));
+    let m = fr.member(0, 1);
+    let out = probe_mint(ses, sut, m);
+    fl(ses, sut, tag, "mint:member:wl-opens-after-start", &out);
+    let o = fr.outsider();
+    let out = probe_mint(ses, sut, o);
+    fl(ses, sut, tag, "mint:outsider:wl-opens-after-start", &out);
+    ses.end_case();
+}
+
+/// model hypothesis `WlKind.isMerkle`: a LIST whitelist can never report `member_limit == 0 && num_members == 0` (which is
+/// how the Merkle minters recognise a Merkle whitelist) — every list whitelist refuses `member_limit = 0` at instantiation
+fn hyp_case(ses: &mut Session, sut: &mut S) {
+    let t0 = GENESIS + 40_000_000;
+    ses.begin_case(sut, &format!("{} floor hyp", header(4, t0, 0, 50_000_000, 0, 500)));
+    for (k, wk) in [WlKind::Plain, WlKind::Flex, WlKind::Tiered, WlKind::TieredFlex].iter().enumerate() {
+        let st = format!("{}:{}:60000000:{}:x", t0 + 1000, t0 + 2000, if is_flex(*wk) { 0 } else { 1 });
+        let out = {
+            let line = format!("wl k={} kind={} denom=0 st={st} mem=- lv=- ml=0", k + 1, wl_kind_idx(*wk));
+            do_step(ses, sut, &line);
+            sut.wls.contains_key(&(k as u64 + 1))
+        };
+        ses.mark(format!("hyp:list-wl-member-limit-0:{}:{}", if out { "ACCEPTED" } else { "refused" }, wl_kind_idx(*wk)));
+    }
+    // if one was accepted the Merkle minter would treat it as a Merkle whitelist: let the correspondence see it
+    if !sut.wls.is_empty() {
+        let k = *sut.wls.keys().next().unwrap();
+        do_step(ses, sut, &format!("create sender={ADMIN} start={} end=- wl={k} price=100000000 limit=3 ntok=50", t0 + 3000));
+        do_step(ses, sut, &format!("t now={}", t0 + 1500));
+        probe_mint(ses, sut, 20);
+    }
+    ses.end_case();
+}
+
+/// the classes without which a run would be vacuous; reached by the deterministic floor cases for EVERY seed
+fn require_floor(ses: &mut Session) {
+    for v in 0..9usize {
+        let kind = variant_kind(v);
+        let oe = kind.is_open_edition();
+        for wk in compat_kinds(v) {
+            let a = format!("fl:v{v}:A{}", wl_kind_idx(wk));
+            let b = format!("fl:v{v}:B{}", wl_kind_idx(wk));
+            let mut need: Vec<String> = vec![];
+            for w in [
+                "create:ok", "mint:member:wls:m1:err", "mint:member:wls:0:ok", "mint:member:wls:p1:ok", "mint:outsider:wlactive:err", "mint:member-pubprice:wlactive:err",
+                "set_wl:wls:m1:ok", "set_wl:wls:0:err", "mint:member:wle:m1:ok", "mint:member:wle:p1:err", "mint:pub:start:m1:err", "mint:pub:start:0:ok",
+                "mint:pub:start:p1:ok", "upd_start:start:m1:ok", "upd_start:start:0:err", "upd_start:start:p1:err", "set_wl:start:m1:ok", "set_wl:start:0:err",
+                "migrate:before-start:ok", "migrate:after-start:ok",
+            ] {
+                need.push(format!("{a}:{w}"));
+            }
+            if !is_merkle(wk) {
+                need.push(format!("{a}:mint:member101:wlactive:ok"));
+            }
+            if oe {
+                for w in ["mint:pub:end:m1:ok", "mint:pub:end:0:err", "mint:pub:end:p1:err", "mint_to:end:m1:ok", "mint_to:end:0:err", "mint_to:end:p1:err", "upd_end:end:m1:ok", "upd_end:end:0:err"] {
+                    need.push(format!("{a}:{w}"));
+                }
+                for w in ["mint:wl:end:m1:ok", "mint:wl:end:0:err", "mint:wl:end:p1:err", "mint_to:end:0:err"] {
+                    need.push(format!("{b}:{w}"));
+                }
+            } else {
+                for w in ["mint_to:start:m1:ok", "mint_for:start:0:ok", "mint:pub:end:0:ok"] {
+                    need.push(format!("{a}:{w}"));
+                }
+                need.push(format!("{b}:mint:wl:end:0:ok"));
+            }
+            for w in ["mint:member:wls:0:ok", "mint:wl:start:m1:ok", "mint:wl:start:0:ok", "mint:wl:start:p1:ok", "mint:outsider:start:0:err", "mint:outsider:start:p1:err", "set_wl:start:m1:err"] {
+                need.push(format!("{b}:{w}"));
+            }
+            for n in need {
+                ses.require(n);
+            }
+        }
+        for w in ["mint-before:err", "upd_start-now:ok", "mint-after-upd_start-now:ok", "upd_start-after-start:err"] {
+            ses.require(format!("fl:v{v}:seq:{w}"));
+        }
+        if oe {
+            for w in ["mint-before-upd_end:ok", "upd_end-now:ok", "mint-after-upd_end-now:err", "mint_to-after-upd_end-now:err", "upd_end-after-end:err"] {
+                ses.require(format!("fl:v{v}:seq:{w}"));
+            }
+            ses.require(format!("fl:v{v}:attach:create:wl:start-eq-now:err"));
+            ses.require(format!("fl:v{v}:attach:create:wl:start-eq-now-plus-1:ok"));
+        } else {
+            ses.require(format!("fl:v{v}:attach:create:wl:start-eq-now:ok"));
+            ses.require(format!("fl:v{v}:attach:set_wl-right-after-create:err"));
+            ses.require(format!("fl:v{v}:attach:mint-right-after-create:ok"));
+        }
+        ses.require(format!("fl:v{v}:attach:mint:member:wl-opens-after-start:ok"));
+        ses.require(format!("fl:v{v}:attach:mint:outsider:wl-opens-after-start:err"));
+    }
+    for w in [
+        "A0:create:ok", "A0:deposit:start:m1:err", "A0:deposit:start:0:err", "A0:deposit:start:p1:ok", "A0:upd_start:start:m1:ok", "A0:upd_start:start:0:err", "A0:mint_to:start:m1:ok",
+        "A0:mint_for:start:0:ok", "A0:migrate:before-start:ok", "A0:migrate:after-start:ok", "seq:mint-before:err", "seq:upd_start-now:ok", "seq:mint-after-upd_start-now:err",
+        "seq:deposit-next-ns:ok", "seq:upd_start-after-start:err",
+    ] {
+        ses.require(format!("fl:v9:{w}"));
+    }
+    for k in 0..4 {
+        ses.require(format!("hyp:list-wl-member-limit-0:refused:{k}"));
+    }
+}
+
 fn main() {
     let mut ses = Session::new("C04");
     let mut sut = S::new();
@@ -1559,6 +2608,37 @@ fn main() {
         ses.finish(&mut sut);
     }
     let mut g = Gen { rng: ses.rng.fork(), rot: 0 };
+
+    // 0. floor: deterministic boundary triples with fresh buyers, per variant × compatible whitelist kind × layout; the
+    // decisive classes are REQUIRED (a run that does not reach them is vacuous and fails with status 4)
+    require_floor(&mut ses);
+    for v in 0..10usize {
+        for wk in compat_kinds(v) {
+            floor_case(&mut ses, &mut sut, v, wk, false);
+            if v != 9 {
+                floor_case(&mut ses, &mut sut, v, wk, true);
+            }
+        }
+        seq_case(&mut ses, &mut sut, v);
+        if v != 9 {
+            attach_case(&mut ses, &mut sut, v);
+        }
+    }
+    hyp_case(&mut ses, &mut sut);
+    // run-time message surface: what the crates' schemas list beyond the ops of this check
+    let mut unknown: Vec<String> = vec![];
+    for v in 0..10usize {
+        for u in unknown_exec(variant_kind(v)) {
+            unknown.push(format!("{}::{u}", variant_kind(v).name()));
+        }
+    }
+    for u in unknown_sudo() {
+        unknown.push(format!("sudo::{u}"));
+    }
+    ses.note(format!(
+        "message surface enumerated at run time from schema_for!(ExecuteMsg) of the 10 minter crates and sg4::SudoMsg; variants without an op are sent as raw JSON (`menv what=x.<variant>` / `s.<variant>`) by admin and stranger under all monitors. Unknown to this check: {}",
+        if unknown.is_empty() { "none".to_string() } else { unknown.join(", ") }
+    ));
 
     // 1. sweeps: every minter × every whitelist kind (incl. the ones it cannot read), window shapes rotating
     let rounds = ses.scale(3, 40);
@@ -1605,6 +2685,8 @@ fn main() {
         random_case(&mut ses, &mut sut, &mut g, v, steps);
         ses.count(&format!("random:v{v}"));
     }
+    ses.note("monitors use the harness's own record (ghost): requested start/end/whitelist of every accepted message, the member lists / Merkle leaves / prices it created; tiered stage in force = the whitelist's ActiveStageId answer; floor cases: fresh buyer per probe, supply 400, funds from the record");
+    ses.note("projection: `st= en= wl=` and ok/err are primary; `left=`, `cnt=` and the MintPrice answer are behind ` ## ` (drift only)");
     ses.note("clock: every instant of {mint start, mint end, each whitelist stage start/end} is visited at t-1 ns, t, t+1 ns in the sweep cases (identity updates probe the update gates without moving the schedule); random cases move the schedule for real, with new values drawn from {now, start, end, stage edges, genesis} ± 1 ns");
     ses.note("pairings: all 9 whitelist-capable minters × all 7 whitelist kinds (incompatible kinds must fail to attach / never let a whitelist mint through), token-merge separately");
     ses.note("Merkle: real SHA-256 (whitelist-merkletree) and BLAKE3/16 (tiered) trees built by the harness; proofs by the right sender, by another sender, for another tree, with inflated allocation, junk and malformed hashes");
